@@ -1,8 +1,7 @@
-(* C02deep — conditional constant propagation (model Passes.ccp) preserves the behaviour of every
-   well-formed function, on the paths of the model that are flagged "proved": everything except the two
-   rewrites of the While case that re-optimise already optimised statements (single-iteration loop, peeling).
-   Both runs are taken in mode Add (+ and - checked): the input run does not overflow there and neither does
-   the output run, so rounds compose (refines_add); `refines` (mode All in, mode Wrap out) is a corollary. *)
+(* C02deep — lemmas shared by the proofs of constant propagation (ProofsCcpFull.v) and value numbering
+   (ProofsLvn.v): list / scope bookkeeping, the shape of the semantics of the compound statements, facts
+   about the helper functions of the CCP model that do not involve the simulation relation, and the
+   composable notion of refinement (refines_add). *)
 From Coq Require Import ZArith NArith List Bool Lia.
 Import ListNotations.
 From SV Require Import Common.Int32 C02.Kernels C02.Proofs C02deep.Syntax C02deep.Sem C02deep.Passes
@@ -34,179 +33,17 @@ Proof.
   rewrite in_app_iff in *. tauto.
 Qed.
 
-Section Ccp.
-  Variables (w : world) (fuel : nat) (g : ver).
-  (* both runs check + and - (mode Add): the input run does not overflow there, and neither does the output *)
+
+Section CcpBase.
+  Variables (w : world) (fuel : nat).
   Notation exec_o := (exec Add w fuel).
   Notation exec_block_o := (exec_block Add w fuel).
   Notation exec_t := (exec Add w fuel).
   Notation exec_block_t := (exec_block Add w fuel).
 
-  Definition dyn (ro : res) (out : list stmt) (c' : cx) (brk : bool) (S bs ds : list name) (et : env) (tr : trace) : Prop :=
-    match ro with
-    | RNext eo' tr' =>
-        brk = false /\
-        exists et' S', exec_block_t out et tr = RNext et' tr' /\ Rel w c' S' eo' et' /\
-                       incl' (ds ++ S) S' /\ incl' S' (bs ++ S)
-    | RBreak v _ tr' => exists et', exec_block_t out et tr = RBreak v et' tr'
-    | _ => True
-    end.
-
-  Definition good (bs ds : list name) (xo : env -> trace -> res) (S0 : list name) (c : cx)
-             (out : list stmt) (c' : cx) (brk : bool) : Prop :=
-    forall D, cx_wf c D -> incl' S0 D -> NoDup bs -> disj bs D ->
-      (cx_wf c' (bs ++ D) /\ ext_outside bs c c' /\ incl' (binders_l out) bs) /\
-      forall S eo et tr, incl' S0 S -> incl' S D -> Rel w c S eo et ->
-                         dyn (xo eo tr) out c' brk S bs ds et tr.
-
-  Definition Pn (n : nat) : Prop := forall st c out c' brk f S0,
-    ccp_stmt g n st c = Some (out, c', brk, f) -> fst f = false -> scoped S0 st = true ->
-    good (binders st) (defs st) (exec_o st) S0 c out c' brk.
-  Definition Qn (n : nat) : Prop := forall ss c out c' brk f S0,
-    ccp_stmts g n ss c = Some (out, c', brk, f) -> fst f = false -> scoped_l S0 ss = true ->
-    good (binders_l ss) (defs_l ss) (exec_block_o ss) S0 c out c' brk.
-
-  (* ---------------------------------------------------------------- statements that bind one name *)
-
-  (* the statement is dropped, its name bound to e in the context *)
-  Lemma bound_good x e c c' S0 (xo : env -> trace -> res) :
-    bind x e c = Some c' ->
-    (forall D, cx_wf c D -> incl' S0 D -> forall y, e = EVar y -> In y D) ->
-    (forall D S eo et tr, cx_wf c D -> incl' S0 S -> incl' S D -> Rel w c S eo et ->
-       match xo eo tr with
-       | RNext eo' tr' => exists v, eo' = (x, v) :: eo /\ tr' = tr /\ wrap32 v = eval w et e /\
-                                    forall y, e = EVar y -> In y S
-       | RBreak _ _ _ => False
-       | _ => True
-       end) ->
-    good [x] [x] xo S0 c [] c' false.
-  Proof.
-    intros Hb Hst Hdy D Hwf HS0 Hnd Hdj. split.
-    - split; [|split].
-      + apply (bind_wf x e c c' D Hb Hwf). eauto.
-      + eapply bind_ext; eauto.
-      + intros y [].
-    - intros S eo et tr Hi1 Hi2 HR. specialize (Hdy D S eo et tr Hwf Hi1 Hi2 HR).
-      destruct (xo eo tr); cbn [dyn]; auto; [|contradiction].
-      destruct Hdy as (v & -> & -> & Hv & Hy). split; auto. exists et, (x :: S). split; [reflexivity|].
-      assert (HxD : ~ In x D) by (intros H; eapply Hdj; eauto; left; reflexivity).
-      split; [|split; apply incl'_refl].
-      eapply Rel_bind; eauto. eapply cx_wf_notin_b; eauto.
-  Qed.
-
-  (* the statement is kept (possibly rewritten) as a single statement that assigns x the same value;
-     c' is c, or c with a record for x in the binary-expression context *)
-  Lemma kept_good x st' c c' S0 (xo : env -> trace -> res) :
-    binders st' = [x] ->
-    (c' = c \/ exists op y k, c' = bind_b x (op, y, k) c /\
-       (forall D, cx_wf c D -> incl' S0 D -> In y D /\ in32 k)) ->
-    (forall D S eo et tr, cx_wf c D -> incl' S0 S -> incl' S D -> Rel w c S eo et ->
-       match xo eo tr with
-       | RNext eo' tr' => exists v, eo' = (x, v) :: eo /\ exec_t st' et tr = RNext ((x, v) :: et) tr' /\
-            forall op y k, c' = bind_b x (op, y, k) c ->
-              In y S /\ chk Add op && ovf op (eval w et (EVar y)) k = false /\ rt_binop op (eval w et (EVar y)) k = Val v
-       | RBreak _ _ _ => False
-       | _ => True
-       end) ->
-    good [x] [x] xo S0 c [st'] c' false.
-  Proof.
-    intros Hbs Hc Hdy D Hwf HS0 Hnd Hdj.
-    assert (HxD : ~ In x D) by (intros H; eapply Hdj; eauto; left; reflexivity).
-    split.
-    - split; [|split].
-      + destruct Hc as [->|(op & y & k & -> & Hyk)].
-        * eapply cx_wf_mono; eauto. apply incl'_cons_r.
-        * destruct (Hyk D Hwf HS0). now apply bind_b_wf.
-      + destruct Hc as [->|(op & y & k & -> & _)]; [apply ext_refl | apply bind_b_ext].
-      + cbn. rewrite Hbs, app_nil_r. apply incl'_refl.
-    - intros S eo et tr Hi1 Hi2 HR. specialize (Hdy D S eo et tr Hwf Hi1 Hi2 HR).
-      destruct (xo eo tr); cbn [dyn]; auto; [|contradiction].
-      destruct Hdy as (v & -> & Ht & Hrec). split; auto. exists ((x, v) :: et), (x :: S).
-      split; [rewrite exec_block_cons, Ht; reflexivity|].
-      assert (HxS : ~ In x S) by (intros H; apply HxD; auto).
-      assert (HR' : Rel w c (x :: S) ((x, v) :: eo) ((x, v) :: et)).
-      { apply Rel_def; auto; [eapply cx_wf_notin_v | eapply cx_wf_notin_b]; eauto. }
-      split; [|split; apply incl'_refl].
-      destruct Hc as [->|(op & y & k & -> & _)]; [exact HR'|].
-      destruct (Hrec op y k eq_refl) as (Hy & Ho & Hv).
-      assert (Hyx : y <> x) by (intros ->; contradiction).
-      assert (Ey : eval w ((x, v) :: et) (EVar y) = eval w et (EVar y)).
-      { unfold eval. cbn. destruct (N.eqb_spec y x); [contradiction | reflexivity]. }
-      eapply Rel_bind_b; eauto.
-      * left; reflexivity.
-      * right; assumption.
-      * eapply cx_wf_notin_b; eauto.
-      * now rewrite Ey.
-      * rewrite Ey. eassumption.
-      * unfold eval. cbn. now rewrite N.eqb_refl.
-  Qed.
-  (* ---------------------------------------------------------------- Not, opaque primitives, Call, Break *)
   Lemma bind_b_neq x b c : bind_b x b c <> c.
   Proof. destruct c as [v bb]. unfold bind_b. cbn. intros E. injection E as E. apply (f_equal (@length _)) in E. cbn in E. lia. Qed.
 
-  Lemma P_SNot n x e c out c' brk f S0 :
-    ccp_stmt g (S n) (SNot x e) c = Some (out, c', brk, f) -> scoped S0 (SNot x e) = true ->
-    good [x] [x] (exec_o (SNot x e)) S0 c out c' brk.
-  Proof.
-    cbn [ccp_stmt scoped]. intros H Hsc. destruct (lit (opt_expr (cx_v c) e)) as [z|] eqn:L.
-    - destruct (bind x _ c) as [c1|] eqn:B; [|discriminate]. injection H as <- <- <- <-.
-      eapply bound_good; eauto.
-      + intros; discriminate.
-      + intros D S eo et tr Hwf Hi1 Hi2 HR. cbn. eexists. split; [reflexivity|]. split; [reflexivity|].
-        split; [|intros; discriminate].
-        destruct (lit_eval _ _ L) as (Hz & _ & _).
-        rewrite (Rel_expr w c S eo et e HR (in_scope_In _ _ _ Hsc Hi1)), Hz.
-        unfold eval. now rewrite wrap32_idem.
-    - injection H as <- <- <- <-. eapply kept_good; [reflexivity | left; reflexivity |].
-      intros D S eo et tr Hwf Hi1 Hi2 HR. cbn. eexists. split; [reflexivity|].
-      rewrite (Rel_expr w c S eo et e HR (in_scope_In _ _ _ Hsc Hi1)). split; [reflexivity|].
-      intros op y k E. exfalso. symmetry in E. eapply bind_b_neq; eauto.
-  Qed.
-
-  Lemma P_SPrim n x p e c out c' brk f S0 :
-    ccp_stmt g (S n) (SPrim x p e) c = Some (out, c', brk, f) -> scoped S0 (SPrim x p e) = true ->
-    good [x] [x] (exec_o (SPrim x p e)) S0 c out c' brk.
-  Proof.
-    cbn [ccp_stmt scoped]. intros H Hsc. injection H as <- <- <- <-.
-    eapply kept_good; [reflexivity | left; reflexivity |].
-    intros D S eo et tr Hwf Hi1 Hi2 HR. cbn. eexists. split; [reflexivity|].
-    rewrite (Rel_expr w c S eo et e HR (in_scope_In _ _ _ Hsc Hi1)). split; [reflexivity|].
-    intros op y k E. exfalso. symmetry in E. eapply bind_b_neq; eauto.
-  Qed.
-
-  Lemma P_SBreak n e c out c' brk f S0 :
-    ccp_stmt g (S n) (SBreak e) c = Some (out, c', brk, f) -> scoped S0 (SBreak e) = true ->
-    good [] [] (exec_o (SBreak e)) S0 c out c' brk.
-  Proof.
-    cbn [ccp_stmt scoped]. intros H Hsc. injection H as <- <- <- <-.
-    intros D Hwf HS0 Hnd Hdj. split.
-    - split; [assumption|]. split; [apply ext_refl|]. cbn. intros x [].
-    - intros S eo et tr Hi1 Hi2 HR. cbn. eexists.
-      rewrite (Rel_expr w c S eo et e HR (in_scope_In _ _ _ Hsc Hi1)). reflexivity.
-  Qed.
-
-  Lemma P_SCall n fn args ret c out c' brk f S0 :
-    ccp_stmt g (S n) (SCall fn args ret) c = Some (out, c', brk, f) -> scoped S0 (SCall fn args ret) = true ->
-    good (opt_names ret) (opt_names ret) (exec_o (SCall fn args ret)) S0 c out c' brk.
-  Proof.
-    cbn [ccp_stmt scoped]. intros H Hsc. injection H as <- <- <- <-.
-    intros D Hwf HS0 Hnd Hdj. split.
-    - split; [eapply cx_wf_mono; eauto; apply incl'_app_r|]. split; [apply ext_refl|].
-      cbn. rewrite app_nil_r. apply incl'_refl.
-    - intros S eo et tr Hi1 Hi2 HR. cbn [exec].
-      assert (Hargs : map (eval w et) (map (opt_expr (cx_v c)) args) = map (eval w eo) args).
-      { rewrite map_map. apply map_ext_in. intros a Ha. symmetry. apply (Rel_expr w c S eo et a HR).
-        rewrite forallb_forall in Hsc. apply (in_scope_In _ _ _ (Hsc a Ha) Hi1). }
-      destruct (w_call w tr fn (map (eval w eo) args)) as [v|] eqn:Ec; cbn [dyn]; auto.
-      split; auto. rewrite exec_block_cons. cbn [exec]. rewrite Hargs, Ec.
-      destruct ret as [r|]; cbn [bind_opt opt_names app].
-      + exists ((r, v) :: et), (r :: S). split; [reflexivity|].
-        assert (HrD : ~ In r D) by (intros Hr; eapply Hdj; eauto; left; reflexivity).
-        split; [|split; apply incl'_refl].
-        apply Rel_def; auto; [eapply cx_wf_notin_v | eapply cx_wf_notin_b]; eauto.
-      + exists et, S. split; [reflexivity|]. split; [assumption|]. split; apply incl'_refl.
-  Qed.
-  (* ---------------------------------------------------------------- Binary *)
   Lemma bin_step x op e1 e2 eo tr (G : res -> Prop) :
     G ROvf -> G (RTrap tr) ->
     (forall v, chk Add op && ovf op (eval w eo e1) (eval w eo e2) = false ->
@@ -217,249 +54,15 @@ Section Ccp.
     destruct (rt_binop op _ _) eqn:R; auto.
   Qed.
 
-  Lemma bound_bin x op e1 e2 e c out c' brk f S0 :
-    ccp_bound x e c = Some (out, c', brk, f) ->
-    (forall D, cx_wf c D -> incl' S0 D -> forall y, e = EVar y -> In y D) ->
-    (forall D S eo et v, cx_wf c D -> incl' S0 S -> incl' S D -> Rel w c S eo et ->
-       chk Add op && ovf op (eval w eo e1) (eval w eo e2) = false -> rt_binop op (eval w eo e1) (eval w eo e2) = Val v ->
-       wrap32 v = eval w et e /\ forall y, e = EVar y -> In y S) ->
-    good [x] [x] (exec_o (SBin x op e1 e2)) S0 c out c' brk.
-  Proof.
-    unfold ccp_bound. destruct (bind x e c) as [c1|] eqn:B; [|discriminate]. intros [= <- <- <- <-] Hst Hdy.
-    eapply bound_good; eauto.
-    intros D S eo et tr Hwf Hi1 Hi2 HR. apply bin_step; auto.
-    intros v Ho Hv. destruct (Hdy D S eo et v Hwf Hi1 Hi2 HR Ho Hv). eauto 6.
-  Qed.
-
-  Lemma kept_bin x op e1 e2 sop sa sb c c' S0 :
-    (c' = c \/ exists y k, c' = bind_b x (sop, y, k) c /\ sa = EVar y /\
-       (forall D, cx_wf c D -> incl' S0 D -> In y D /\ in32 k) /\
-       (forall en, eval w en sb = k)) ->
-    (forall D S eo et v, cx_wf c D -> incl' S0 S -> incl' S D -> Rel w c S eo et ->
-       chk Add op && ovf op (eval w eo e1) (eval w eo e2) = false -> rt_binop op (eval w eo e1) (eval w eo e2) = Val v ->
-       rt_binop sop (eval w et sa) (eval w et sb) = Val v /\
-       chk Add sop && ovf sop (eval w et sa) (eval w et sb) = false /\
-       (c' = c \/ forall y, sa = EVar y -> In y S)) ->
-    good [x] [x] (exec_o (SBin x op e1 e2)) S0 c [SBin x sop sa sb] c' false.
-  Proof.
-    intros Hc Hdy. eapply kept_good; [reflexivity | |].
-    - destruct Hc as [->|(y & k & -> & _ & Hyk & _)]; [left; reflexivity|]. right. eauto.
-    - intros D S eo et tr Hwf Hi1 Hi2 HR. apply bin_step; auto.
-      intros v Ho Hv. destruct (Hdy D S eo et v Hwf Hi1 Hi2 HR Ho Hv) as (Ht & Hot & Hrec).
-      exists v. split; [reflexivity|]. split.
-      + cbn [exec]. rewrite Hot, Ht. reflexivity.
-      + intros op' y' k' E. destruct Hrec as [->|Hy].
-        * exfalso. symmetry in E. eapply bind_b_neq; eauto.
-        * destruct Hc as [->|(y & k & -> & -> & _ & Hk)].
-          -- exfalso. symmetry in E. eapply bind_b_neq; eauto.
-          -- unfold bind_b in E. injection E as E1 E2 E3. subst op' y' k'. rewrite (Hk et) in *. auto.
-  Qed.
-
   Lemma operand_var e1 e2 y : operand_of e1 e2 (EVar y) -> e1 = EVar y \/ e2 = EVar y.
   Proof. intros [H|[H|[z H]]]; auto; discriminate. Qed.
 
-  Lemma rest_good x op e1 e2 c out c' brk f S0 :
-    ccp_bin_rest x op (opt_expr (cx_v c) e1) (opt_expr (cx_v c) e2) c = Some (out, c', brk, f) ->
-    in_scope S0 e1 = true -> in_scope S0 e2 = true ->
-    good [x] [x] (exec_o (SBin x op e1 e2)) S0 c out c' brk.
-  Proof.
-    set (e1' := opt_expr (cx_v c) e1). set (e2' := opt_expr (cx_v c) e2).
-    intros H Hs1 Hs2.
-    assert (EA : forall S eo et, incl' S0 S -> Rel w c S eo et -> eval w eo e1 = eval w et e1').
-    { intros S eo et Hi HR. apply (Rel_expr w c S eo et e1 HR). eapply in_scope_In; eauto. }
-    assert (EB : forall S eo et, incl' S0 S -> Rel w c S eo et -> eval w eo e2 = eval w et e2').
-    { intros S eo et Hi HR. apply (Rel_expr w c S eo et e2 HR). eapply in_scope_In; eauto. }
-    assert (VS : forall S eo et y, incl' S0 S -> Rel w c S eo et -> e1' = EVar y \/ e2' = EVar y -> In y S).
-    { intros S eo et y Hi HR [E|E].
-      - eapply (Rel_expr_scope w c S eo et e1); eauto. eapply in_scope_In; eauto.
-      - eapply (Rel_expr_scope w c S eo et e2); eauto. eapply in_scope_In; eauto. }
-    assert (VD : forall D y, cx_wf c D -> incl' S0 D -> e1' = EVar y \/ e2' = EVar y -> In y D).
-    { intros D y Hwf Hi [E|E]; [apply (opt_expr_range c D S0 e1 y Hwf Hi Hs1 E) | apply (opt_expr_range c D S0 e2 y Hwf Hi Hs2 E)]. }
-    unfold ccp_bin_rest in H.
-    destruct (match e1', e2' with
-              | EVar a, EVar b => if N.eqb a b then match op with MINUS | MOD => Some (EInt 0) | DIV => Some (EInt 1) | _ => None end else None
-              | _, _ => None end) as [e|] eqn:SV.
-    - (* x op x *)
-      assert (Hsv : exists a, e1' = EVar a /\ e2' = EVar a /\
-                    ((op = MINUS \/ op = MOD) /\ e = EInt 0 \/ op = DIV /\ e = EInt 1)).
-      { destruct e1' as [| | |a]; try discriminate. destruct e2' as [| | |b]; try discriminate.
-        destruct (N.eqb_spec a b) as [->|]; [|discriminate]. exists b.
-        destruct op; try discriminate; injection SV as <-; auto 8. }
-      destruct Hsv as (a & E1 & E2 & Hop).
-      eapply bound_bin; eauto.
-      + intros D _ _ y Ey. destruct Hop as [[_ ->]|[_ ->]]; discriminate.
-      + intros D S eo et v Hwf Hi1 Hi2 HR Ho Hv.
-        rewrite (EA S eo et Hi1 HR), (EB S eo et Hi1 HR), E1, E2 in Hv.
-        split; [|intros y Ey; destruct Hop as [[_ ->]|[_ ->]]; discriminate].
-        destruct Hop as [[[->| ->] ->]|[-> ->]]; change (eval w et (EInt 0)) with 0; change (eval w et (EInt 1)) with 1.
-        * eapply id_minus_same; eauto.
-        * eapply id_mod_same; eauto.
-        * eapply id_div_same; eauto.
-    - destruct (flex_unwrapped op e1' e2') as [[op' a'] b'] eqn:F.
-      destruct (flex_unwrapped_operands _ _ _ _ _ _ F) as [Oa Ob].
-      assert (FS : forall S eo et v, incl' S0 S -> Rel w c S eo et ->
-                 chk Add op && ovf op (eval w eo e1) (eval w eo e2) = false -> rt_binop op (eval w eo e1) (eval w eo e2) = Val v ->
-                 rt_binop op' (eval w et a') (eval w et b') = Val v /\
-                 chk Add op' && ovf op' (eval w et a') (eval w et b') = false).
-      { intros S eo et v Hi HR Ho Hv. rewrite (EA S eo et Hi HR), (EB S eo et Hi HR) in Ho, Hv.
-        destruct (flex_unwrapped_sound _ _ _ _ _ _ F w et) as [<- <-].
-        rewrite (flex_unwrapped_chk Add _ _ _ _ _ _ F). auto. }
-      assert (PLAIN : Some ([SBin x op' a' b'], c, false, fl0) = Some (out, c', brk, f) ->
-                      good [x] [x] (exec_o (SBin x op e1 e2)) S0 c out c' brk).
-      { intros [= <- <- <- <-]. apply kept_bin; [left; reflexivity|].
-        intros D S eo et v Hwf Hi1 Hi2 HR Ho Hv. destruct (FS S eo et v Hi1 HR Ho Hv). auto. }
-      destruct a' as [| | |v1]; try (apply PLAIN; exact H).
-      destruct b' as [c2| | |]; try (apply PLAIN; exact H).
-      destruct (match assoc v1 (cx_b c) with
-                | Some (iop, iv, ic) => match merge_binop op' iop ic (wrap32 c2) with
-                                        | Some (mop, mc) => Some (SBin x mop (EVar iv) (EInt mc))
-                                        | None => None end
-                | None => None end) as [s|] eqn:M.
-      + (* merged with the recorded definition of v1 *)
-        destruct (assoc v1 (cx_b c)) as [[[iop iv] ic]|] eqn:Ea; [|discriminate].
-        destruct (merge_binop op' iop ic (wrap32 c2)) as [[mop mc]|] eqn:Em; [|discriminate].
-        injection M as <-. injection H as <- <- <- <-.
-        apply kept_bin; [left; reflexivity|].
-        intros D S eo et v Hwf Hi1 Hi2 HR Ho Hv.
-        destruct (FS S eo et v Hi1 HR Ho Hv) as [Hv' Ho'].
-        assert (Hv1 : In v1 S) by (eapply VS; eauto; apply operand_var; exact Oa).
-        destruct HR as (_ & _ & RB). destruct (RB v1 iop iv ic Hv1 Ea) as (Hiv & Hoi & vi & Hvi & Hz).
-        destruct Hwf as [_ W2]. destruct (W2 v1 iop iv ic Ea) as (_ & _ & Hic).
-        rewrite Hz in Hv', Ho'. change (eval w et (EInt c2)) with (wrap32 c2) in Hv', Ho'.
-        destruct (merge_sound op' iop ic (wrap32 c2) mop mc (eval w et (EVar iv)) vi v Em
-                    (eval_in32 _ _ _) Hic (wrap32_in _) Hvi Hoi Hv' Ho') as (Hmc & Hr & Hno).
-        change (eval w et (EInt mc)) with (wrap32 mc). rewrite (wrap32_id mc Hmc). auto.
-      + injection H as <- <- <- <-.
-        apply kept_bin.
-        * right. exists v1, (wrap32 c2). split; [reflexivity|]. split; [reflexivity|]. split.
-          -- intros D Hwf Hi. split; [|apply wrap32_in]. eapply VD; eauto. apply operand_var; exact Oa.
-          -- intros en. reflexivity.
-        * intros D S eo et v Hwf Hi1 Hi2 HR Ho Hv. destruct (FS S eo et v Hi1 HR Ho Hv) as [Hv' Ho'].
-          split; [assumption|]. split; [assumption|]. right.
-          intros y [= <-]. eapply VS; eauto. apply operand_var; exact Oa.
-  Qed.
-
-  Lemma P_SBin n x op e1 e2 c out c' brk f S0 :
-    ccp_stmt g (S n) (SBin x op e1 e2) c = Some (out, c', brk, f) -> scoped S0 (SBin x op e1 e2) = true ->
-    good [x] [x] (exec_o (SBin x op e1 e2)) S0 c out c' brk.
-  Proof.
-    cbn [ccp_stmt scoped]. unfold ccp_bin. intros H Hsc. apply andb_prop in Hsc. destruct Hsc as [Hs1 Hs2].
-    set (e1' := opt_expr (cx_v c) e1) in *. set (e2' := opt_expr (cx_v c) e2) in *.
-    assert (EA : forall S eo et, incl' S0 S -> Rel w c S eo et -> eval w eo e1 = eval w et e1').
-    { intros S eo et Hi HR. apply (Rel_expr w c S eo et e1 HR). eapply in_scope_In; eauto. }
-    assert (EB : forall S eo et, incl' S0 S -> Rel w c S eo et -> eval w eo e2 = eval w et e2').
-    { intros S eo et Hi HR. apply (Rel_expr w c S eo et e2 HR). eapply in_scope_In; eauto. }
-    assert (V1S : forall S eo et y, incl' S0 S -> Rel w c S eo et -> e1' = EVar y -> In y S).
-    { intros S eo et y Hi HR E. eapply (Rel_expr_scope w c S eo et e1); eauto. eapply in_scope_In; eauto. }
-    assert (V1D : forall D, cx_wf c D -> incl' S0 D -> forall y, e1' = EVar y -> In y D).
-    { intros D Hwf Hi y E. apply (opt_expr_range c D S0 e1 y Hwf Hi Hs1 E). }
-    destruct (lit e2') as [v2|] eqn:L2; [|eapply rest_good; eauto].
-    destruct (lit_eval _ _ L2) as (Hv2 & _ & _).
-    (* e1' is bound to x: x + 0, x * 1, x / 1 *)
-    assert (B1 : forall (idl : forall a v, in32 a -> rt_binop op a v2 = Val v -> wrap32 v = a),
-                 ccp_bound x e1' c = Some (out, c', brk, f) -> good [x] [x] (exec_o (SBin x op e1 e2)) S0 c out c' brk).
-    { intros idl Hb. eapply bound_bin; eauto.
-      intros D S eo et v Hwf Hi1 Hi2 HR Ho Hv. split; [|eauto].
-      rewrite (EB S eo et Hi1 HR), Hv2 in Hv. rewrite <- (EA S eo et Hi1 HR). eapply idl; eauto. apply eval_in32. }
-    (* a literal is bound to x *)
-    assert (B0 : forall z (idl : forall a v, in32 a -> rt_binop op a v2 = Val v -> wrap32 v = wrap32 z),
-                 ccp_bound x (EInt z) c = Some (out, c', brk, f) -> good [x] [x] (exec_o (SBin x op e1 e2)) S0 c out c' brk).
-    { intros z idl Hb. eapply bound_bin; eauto.
-      - intros; discriminate.
-      - intros D S eo et v Hwf Hi1 Hi2 HR Ho Hv. split; [|intros; discriminate].
-        rewrite (EB S eo et Hi1 HR), Hv2 in Hv. change (eval w et (EInt z)) with (wrap32 z). eapply idl; eauto. apply eval_in32. }
-    (* constant folding, or the general case *)
-    assert (TAIL : match lit e1' with
-                   | Some v1 => match fold_binop op v1 v2 with
-                                | Some r => ccp_bound x (EInt (wrap32 r)) c
-                                | None => ccp_bin_rest x op e1' e2' c
-                                end
-                   | None => ccp_bin_rest x op e1' e2' c
-                   end = Some (out, c', brk, f) -> good [x] [x] (exec_o (SBin x op e1 e2)) S0 c out c' brk).
-    { intros HT. destruct (lit e1') as [v1|] eqn:L1; [|eapply rest_good; eauto].
-      destruct (fold_binop op v1 v2) as [r|] eqn:Fo; [|eapply rest_good; eauto].
-      destruct (lit_eval _ _ L1) as (Hv1 & _ & _).
-      eapply bound_bin; eauto.
-      - intros; discriminate.
-      - intros D S eo et v Hwf Hi1 Hi2 HR Ho Hv. split; [|intros; discriminate].
-        rewrite (EA S eo et Hi1 HR), (EB S eo et Hi1 HR), Hv1, Hv2 in Hv.
-        rewrite (fold_correct _ _ _ _ Fo) in Hv. injection Hv as <-.
-        change (eval w et (EInt (wrap32 r))) with (wrap32 (wrap32 r)). now rewrite wrap32_idem. }
-    destruct ((v2 =? 0) && match op with PLUS => true | _ => false end) eqn:C1.
-    { apply andb_prop in C1. destruct C1 as [Ez Eop]. apply Z.eqb_eq in Ez. subst v2.
-      destruct op; try discriminate. apply B1; [|exact H]. intros a v Ha Hv. eapply id_plus0; eauto. }
-    destruct ((v2 =? 0) && match op with MUL => true | _ => false end) eqn:C2.
-    { apply andb_prop in C2. destruct C2 as [Ez Eop]. apply Z.eqb_eq in Ez. subst v2.
-      destruct op; try discriminate. apply (B0 0); [|exact H]. intros a v Ha Hv. eapply id_mul0; eauto. }
-    destruct ((v2 =? 1) && match op with MOD => true | _ => false end) eqn:C3.
-    { apply andb_prop in C3. destruct C3 as [Ez Eop]. apply Z.eqb_eq in Ez. subst v2.
-      destruct op; try discriminate. apply (B0 0); [|exact H]. intros a v Ha Hv. eapply id_mod1; eauto. }
-    destruct ((v2 =? 1) && match op with MUL | DIV => true | _ => false end) eqn:C4.
-    { apply andb_prop in C4. destruct C4 as [Ez Eop]. apply Z.eqb_eq in Ez. subst v2.
-      destruct op; try discriminate; (apply B1; [|exact H]); intros a v Ha Hv;
-        [eapply id_mul1 | eapply id_div1]; eauto. }
-    apply TAIL. exact H.
-  Qed.
-  (* ---------------------------------------------------------------- statement lists *)
   Lemma orf_false a b : fst (orf a b) = false -> fst a = false /\ fst b = false.
   Proof. unfold orf. cbn. apply orb_false_elim. Qed.
 
   Lemma disj_app_l a b D : disj (a ++ b) D -> disj a D /\ disj b D.
   Proof. intros H. split; intros x Hx; apply H; apply in_or_app; auto. Qed.
 
-  Lemma Q_of_P n : Pn n -> Qn n.
-  Proof.
-    intros HP ss. induction ss as [|st r IH]; intros c out c' brk f S0 H Hf Hsc.
-    - cbn in H. injection H as <- <- <- <-. intros D Hwf HS0 Hnd Hdj. split.
-      + split; [assumption|]. split; [apply ext_refl | intros x []].
-      + intros S eo et tr Hi1 Hi2 HR. cbn. split; auto. exists et, S. split; [reflexivity|]. split; [assumption|]. split; apply incl'_refl.
-    - cbn [scoped_l] in Hsc. apply andb_prop in Hsc. destruct Hsc as [Hsc1 Hsc2].
-      unfold ccp_stmts in H. cbn [ccp_go] in H.
-      destruct (ccp_stmt g n st c) as [[[[o1 c1] b1] f1]|] eqn:E1; [|discriminate].
-      cbn [binders_l defs_l].
-      destruct b1.
-      + (* the statement always leaves through a break: the rest is dropped *)
-        injection H as <- <- <- <-.
-        specialize (HP st c o1 c1 true f1 S0 E1 Hf Hsc1).
-        intros D Hwf HS0 Hnd Hdj. destruct (disj_app_l _ _ _ Hdj) as [Hdj1 Hdj2].
-        destruct (HP D Hwf HS0 (NoDup_app_l' _ _ Hnd) Hdj1) as [(W1 & X1 & B1) Hd]. split.
-        * split; [eapply cx_wf_mono; eauto; intros x; rewrite !in_app_iff; tauto|].
-          split; [eapply ext_mono; eauto; apply incl'_app_l | eapply incl'_trans; eauto; apply incl'_app_l].
-        * intros S eo et tr Hi1 Hi2 HR. specialize (Hd S eo et tr Hi1 Hi2 HR). rewrite exec_block_cons.
-          destruct (exec_o st eo tr); cbn [dyn] in *; auto. destruct Hd as [Hd _]. discriminate.
-      + destruct (ccp_go (ccp_stmt g n) r c1) as [[[[o2 c2] b2] f2]|] eqn:E2; [|discriminate].
-        injection H as <- <- <- <-. apply orf_false in Hf. destruct Hf as [Hf1 Hf2].
-        specialize (HP st c o1 c1 false f1 S0 E1 Hf1 Hsc1).
-        specialize (IH c1 o2 c2 b2 f2 (defs st ++ S0) E2 Hf2 Hsc2).
-        intros D Hwf HS0 Hnd Hdj. destruct (disj_app_l _ _ _ Hdj) as [Hdj1 Hdj2].
-        destruct (HP D Hwf HS0 (NoDup_app_l' _ _ Hnd) Hdj1) as [(W1 & X1 & B1) Hd1].
-        assert (HS0' : incl' (defs st ++ S0) (binders st ++ D)).
-        { intros x. rewrite !in_app_iff. intros [Hx|Hx]; [left; now apply defs_in_binders | right; auto]. }
-        assert (Hdj' : disj (binders_l r) (binders st ++ D)).
-        { intros x Hx. rewrite in_app_iff. intros [Hb|Hb]; [eapply NoDup_app_disj'; eauto | eapply Hdj2; eauto]. }
-        destruct (IH (binders st ++ D) W1 HS0' (NoDup_app_r' _ _ Hnd) Hdj') as [(W2 & X2 & B2) Hd2]. split.
-        * split; [eapply cx_wf_mono; eauto; intros x; rewrite !in_app_iff; tauto|]. split.
-          -- eapply ext_trans; eauto; [apply incl'_app_l | apply incl'_app_r].
-          -- rewrite binders_l_app. intros x. rewrite !in_app_iff. intros [Hx|Hx]; auto.
-        * intros S eo et tr Hi1 Hi2 HR. specialize (Hd1 S eo et tr Hi1 Hi2 HR). rewrite exec_block_cons.
-          destruct (exec_o st eo tr) as [eo1 tr1|v eo1 tr1| | | | |]; cbn [dyn] in *; auto.
-          -- destruct Hd1 as (_ & et1 & S1 & Ex1 & HR1 & Lo1 & Up1).
-             assert (Hi1' : incl' (defs st ++ S0) S1).
-             { intros x Hx. apply Lo1. rewrite in_app_iff in *. destruct Hx; auto. }
-             assert (Hi2' : incl' S1 (binders st ++ D)).
-             { intros x Hx. apply Up1 in Hx. rewrite in_app_iff in *. destruct Hx; auto. }
-             specialize (Hd2 S1 eo1 et1 tr1 Hi1' Hi2' HR1).
-             destruct (exec_block_o r eo1 tr1) as [eo2 tr2|v eo2 tr2| | | | |]; cbn [dyn] in *; auto.
-             ++ destruct Hd2 as (-> & et2 & S2 & Ex2 & HR2 & Lo2 & Up2). split; auto. exists et2, S2.
-                split; [rewrite exec_block_app, Ex1; exact Ex2|]. split; [assumption|]. split.
-                ** intros x Hx. apply Lo2. rewrite !in_app_iff in *. destruct Hx as [[Hx|Hx]|Hx]; auto.
-                   right. apply Lo1. rewrite in_app_iff. auto. right. apply Lo1. rewrite in_app_iff. auto.
-                ** intros x Hx. apply Up2 in Hx. rewrite !in_app_iff in *. destruct Hx as [Hx|Hx]; auto.
-                   apply Up1 in Hx. rewrite in_app_iff in Hx. tauto.
-             ++ destruct Hd2 as [et2 Ex2]. exists et2. rewrite exec_block_app, Ex1. exact Ex2.
-          -- destruct Hd1 as [et1 Ex1]. exists et1. rewrite exec_block_app, Ex1. reflexivity.
-  Qed.
-  (* ---------------------------------------------------------------- SingleIf *)
   Lemma cond_xor v b inv : cond v = Some b -> xorb b inv = negb (Z.lxor v (b2z inv) =? 0).
   Proof.
     unfold cond. destruct (Z.eqb_spec v 0) as [->|]; [intros [= <-]; destruct inv; reflexivity|].
@@ -473,6 +76,7 @@ Section Ccp.
     intros Hc Hx. destruct out as [|s r]; [reflexivity|]. cbn [is_nil].
     rewrite exec_block_cons, exec_SSIf, Hc, Hx. destruct (exec_block_t (s :: r) et tr); reflexivity.
   Qed.
+
   Lemma target_ssif_skipped cond' inv out et tr b :
     cond (eval w et cond') = Some b -> xorb b inv = false ->
     exec_block_t (if is_nil out then [] else [SSIf cond' inv out]) et tr = RNext et tr.
@@ -484,54 +88,6 @@ Section Ccp.
   Lemma disj_S_bs S D bs : incl' S D -> disj bs D -> disj S bs.
   Proof. intros Hi Hd x Hx Hb. eapply Hd; eauto. Qed.
 
-  Lemma P_SSIf n cnd inv ss c out c' brk f S0 :
-    Qn n ->
-    ccp_stmt g (S n) (SSIf cnd inv ss) c = Some (out, c', brk, f) -> fst f = false ->
-    scoped S0 (SSIf cnd inv ss) = true ->
-    good (binders_l ss) [] (exec_o (SSIf cnd inv ss)) S0 c out c' brk.
-  Proof.
-    intros HQ H Hf Hsc. rewrite scoped_SSIf in Hsc. apply andb_prop in Hsc. destruct Hsc as [Hc Hsc].
-    cbn [ccp_stmt] in H. fold (ccp_stmts g n) in H.
-    set (cnd' := opt_expr (cx_v c) cnd) in *.
-    assert (EC : forall S eo et, incl' S0 S -> Rel w c S eo et -> eval w eo cnd = eval w et cnd').
-    { intros S eo et Hi HR. apply (Rel_expr w c S eo et cnd HR). eapply in_scope_In; eauto. }
-    destruct (lit cnd') as [v|] eqn:L.
-    - destruct (lit_eval _ _ L) as (Hv & _ & _).
-      destruct (negb (Z.lxor v (b2z inv) =? 0)) eqn:T.
-      + (* constant condition, taken: the body replaces the statement *)
-        specialize (HQ ss c out c' brk f S0 H Hf Hsc).
-        intros D Hwf HS0 Hnd Hdj. destruct (HQ D Hwf HS0 Hnd Hdj) as [Hst Hd]. split; [exact Hst|].
-        intros S eo et tr Hi1 Hi2 HR. specialize (Hd S eo et tr Hi1 Hi2 HR). rewrite exec_SSIf.
-        rewrite (EC S eo et Hi1 HR), Hv. destruct (cond v) as [b|] eqn:Eb; cbn [dyn]; auto.
-        rewrite (cond_xor v b inv Eb), T.
-        destruct (exec_block_o ss eo tr); cbn [dyn] in *; auto.
-        destruct Hd as (Hb & et' & S' & Ex & HR' & Lo & Up). split; auto. exists et', S'. repeat (split; auto).
-        intros x Hx. apply Lo. rewrite in_app_iff. right. exact Hx.
-      + injection H as <- <- <- <-. intros D Hwf HS0 Hnd Hdj. split.
-        * split; [eapply cx_wf_mono; eauto; apply incl'_app_r|]. split; [apply ext_refl | intros x []].
-        * intros S eo et tr Hi1 Hi2 HR. rewrite exec_SSIf.
-          rewrite (EC S eo et Hi1 HR), Hv. destruct (cond v) as [b|] eqn:Eb; cbn [dyn]; auto.
-          rewrite (cond_xor v b inv Eb), T. cbn [dyn]. split; auto. exists et, S.
-          split; [reflexivity|]. split; [assumption|]. split; [apply incl'_refl | apply incl'_app_r].
-    - destruct (ccp_stmts g n ss c) as [[[[o1 c1] b1] f1]|] eqn:E1; [|discriminate].
-      injection H as <- <- <- <-.
-      specialize (HQ ss c o1 c1 b1 f1 S0 E1 Hf Hsc).
-      intros D Hwf HS0 Hnd Hdj. destruct (HQ D Hwf HS0 Hnd Hdj) as [(W1 & X1 & B1) Hd]. split.
-      + split; [assumption|]. split; [assumption|]. destruct o1; cbn [is_nil]; [intros x []|].
-        cbn [binders_l]. rewrite binders_SSIf, app_nil_r. exact B1.
-      + intros S eo et tr Hi1 Hi2 HR. specialize (Hd S eo et tr Hi1 Hi2 HR). rewrite exec_SSIf.
-        pose proof (EC S eo et Hi1 HR) as Ecv. rewrite Ecv.
-        destruct (cond (eval w et cnd')) as [b|] eqn:Eb; cbn [dyn]; auto.
-        destruct (xorb b inv) eqn:Ex.
-        * destruct (exec_block_o ss eo tr); cbn [dyn] in *; auto;
-            rewrite (target_ssif_taken cnd' inv o1 et tr b Eb Ex); [|exact Hd].
-          destruct Hd as (_ & et' & S' & Ex' & HR' & Lo & Up). split; auto. exists et', S'. repeat (split; auto).
-          intros x Hx. apply Lo. rewrite in_app_iff. right. exact Hx.
-        * cbn [dyn]. split; auto. exists et, S.
-          split; [apply (target_ssif_skipped cnd' inv o1 et tr b Eb Ex)|]. split; [|split; [apply incl'_refl | apply incl'_app_r]].
-          eapply Rel_ext; eauto. eapply disj_S_bs; eauto.
-  Qed.
-  (* ---------------------------------------------------------------- IfElse with a constant condition *)
   Lemma cond_lit v b : cond v = Some b -> b = negb (v =? 0).
   Proof.
     unfold cond. destruct (Z.eqb_spec v 0) as [->|]; [intros [= <-]; reflexivity|].
@@ -550,133 +106,8 @@ Section Ccp.
       + intros x Hx. right. exact Hx.
   Qed.
 
-  Lemma bind_fas_static b fas : forall c1 c2 D1 Sx,
-    bind_fas b fas c1 = Some c2 -> cx_wf c1 D1 -> incl' Sx D1 ->
-    (forall t, In t fas -> in_scope Sx (pick b t) = true) ->
-    cx_wf c2 (map t_name fas ++ D1).
-  Proof.
-    induction fas as [|t r IH]; intros c1 c2 D1 Sx H Hwf Hi Hsc; cbn in H.
-    - injection H as <-. assumption.
-    - destruct (bind (t_name t) _ c1) as [ca|] eqn:B; [|discriminate].
-      assert (Hwa : cx_wf ca (t_name t :: D1)).
-      { eapply bind_wf; eauto. intros y Ey. eapply (opt_expr_range c1 D1 Sx (pick b t)); eauto.
-        apply Hsc. left; reflexivity. }
-      assert (Hi' : incl' Sx (t_name t :: D1)) by (intros x Hx; right; auto).
-      assert (Hsc' : forall t', In t' r -> in_scope Sx (pick b t') = true) by (intros t' Ht'; apply Hsc; right; assumption).
-      pose proof (IH ca c2 (t_name t :: D1) Sx H Hwa Hi' Hsc') as W.
-      eapply cx_wf_mono; eauto. intros x. cbn. rewrite !in_app_iff. cbn. tauto.
-  Qed.
-
-  Lemma bind_fas_assoc b fas : forall c1 c2,
-    bind_fas b fas c1 = Some c2 -> NoDup (map t_name fas) ->
-    (forall t y, In t fas -> pick b t = EVar y -> ~ In y (map t_name fas)) ->
-    cx_b c2 = cx_b c1 /\
-    forall t, In t fas -> assoc (t_name t) (cx_v c2) = Some (opt_expr (cx_v c1) (pick b t)).
-  Proof.
-    induction fas as [|t r IH]; intros c1 c2 H Hnd Hfr; cbn in H.
-    - injection H as <-. split; [reflexivity | intros t []].
-    - destruct (bind (t_name t) _ c1) as [ca|] eqn:B; [|discriminate].
-      destruct (bind_inv _ _ _ _ B) as (_ & Ev & Eb). inversion Hnd as [|? ? Hni Hnd']; subst.
-      assert (Hfr' : forall t' y, In t' r -> pick b t' = EVar y -> ~ In y (map t_name r)).
-      { intros t' y Ht' Ey Hy. eapply (Hfr t' y); eauto; right; assumption. }
-      destruct (IH ca c2 H Hnd' Hfr') as [Hb Ha].
-      split; [congruence|]. intros t' [<-|Ht'].
-      + destruct (bind_fas_ext b r ca c2 H (t_name t) Hni) as [-> _]. rewrite Ev. cbn. rewrite N.eqb_refl.
-        destruct b; reflexivity.
-      + rewrite (Ha t' Ht'). f_equal. rewrite Ev. destruct (pick b t') eqn:Ep; try reflexivity. cbn.
-        destruct (N.eqb_spec x (t_name t)) as [->|]; [|reflexivity].
-        exfalso. eapply (Hfr t' (t_name t)); eauto; [right; assumption | left; reflexivity].
-  Qed.
-  Lemma Rel_bind_fas b fas c1 c2 S1 Sx eo1 et1 D1 :
-    Rel w c1 S1 eo1 et1 -> bind_fas b fas c1 = Some c2 -> NoDup (map t_name fas) ->
-    (forall x, In x (map t_name fas) -> ~ In x D1) -> incl' S1 D1 -> cx_wf c1 D1 -> incl' Sx S1 ->
-    (forall t, In t fas -> in_scope Sx (pick b t) = true) ->
-    Rel w c2 (map t_name fas ++ S1)
-        (combine (map t_name fas) (map (fun t => eval w eo1 (pick b t)) fas) ++ eo1) et1.
-  Proof.
-    intros HR Hb Hnd Hfr Hi Hwf Hix Hsc.
-    assert (Hfr' : forall t y, In t fas -> pick b t = EVar y -> ~ In y (map t_name fas)).
-    { intros t y Ht Ey Hy. apply (Hfr y Hy). apply Hi, Hix. apply in_scope_var. rewrite <- Ey. auto. }
-    destruct (bind_fas_assoc b fas c1 c2 Hb Hnd Hfr') as [Eb Ha].
-    pose proof (bind_fas_ext b fas c1 c2 Hb) as X.
-    assert (Hvar : forall t, In t fas -> forall y, pick b t = EVar y -> In y S1).
-    { intros t Ht y Ey. apply Hix. apply in_scope_var. rewrite <- Ey. auto. }
-    assert (Hout : forall x, ~ In x (map t_name fas) -> opt_expr (cx_v c2) (EVar x) = opt_expr (cx_v c1) (EVar x)).
-    { intros x Hx. cbn. destruct (X x Hx) as [-> _]. reflexivity. }
-    assert (Hin : forall t, In t fas -> opt_expr (cx_v c2) (EVar (t_name t)) = opt_expr (cx_v c1) (pick b t)).
-    { intros t Ht. cbn. now rewrite (Ha t Ht). }
-    destruct HR as (RV & RI & RB). split; [|split].
-    - intros x Hx. destruct (in_dec N.eq_dec x (map t_name fas)) as [Hf|Hn].
-      + apply in_map_iff in Hf. destruct Hf as [t [<- Ht]]. rewrite (Hin t Ht).
-        unfold eval at 1. rewrite (lookup_bind w (pick b)), (find_name_unique fas t Hnd Ht), eval_wrap.
-        apply (Rel_expr w c1 S1 eo1 et1 (pick b t) (conj RV (conj RI RB))). apply Hvar; assumption.
-      + rewrite (Hout x Hn). rewrite in_app_iff in Hx. destruct Hx as [Hx|Hx]; [contradiction|].
-        rewrite <- (RV x Hx). apply eval_var_lookup. now apply (lookup_bind_notin w (pick b)).
-    - intros x y Hx. destruct (in_dec N.eq_dec x (map t_name fas)) as [Hf|Hn].
-      + apply in_map_iff in Hf. destruct Hf as [t [<- Ht]]. rewrite (Hin t Ht). intros E.
-        apply in_or_app. right.
-        apply (Rel_expr_scope w c1 S1 eo1 et1 (pick b t) y (conj RV (conj RI RB)) (Hvar t Ht) E).
-      + rewrite (Hout x Hn). rewrite in_app_iff in Hx. destruct Hx as [Hx|Hx]; [contradiction|].
-        intros E. apply in_or_app. right. eauto.
-    - intros z op y k Hz. rewrite Eb. intros E. rewrite in_app_iff in Hz. destruct Hz as [Hz|Hz].
-      + exfalso. rewrite (cx_wf_notin_b c1 D1 z Hwf (Hfr z Hz)) in E. discriminate.
-      + destruct (RB z op y k Hz E) as (Hy & R). split; [apply in_or_app; right; assumption | exact R].
-  Qed.
   Definition trivial_res (r : res) : Prop := match r with RNext _ _ | RBreak _ _ _ => False | _ => True end.
 
-  Lemma good_ext bs ds xo xo' S0 c out c' brk :
-    good bs ds xo S0 c out c' brk ->
-    (forall S eo et tr, incl' S0 S -> Rel w c S eo et -> xo' eo tr = xo eo tr \/ trivial_res (xo' eo tr)) ->
-    good bs ds xo' S0 c out c' brk.
-  Proof.
-    intros Hg He D Hwf HS0 Hnd Hdj. destruct (Hg D Hwf HS0 Hnd Hdj) as [Hst Hd]. split; [exact Hst|].
-    intros S eo et tr Hi1 Hi2 HR. destruct (He S eo et tr Hi1 HR) as [->|Ht]; [auto|].
-    destruct (xo' eo tr); cbn in *; auto; contradiction.
-  Qed.
-
-  (* the taken branch replaces the statement; its final assignments become bindings *)
-  Lemma const_if_core b sb fas bs S0 c out1 c1 b1 out c' brk :
-    good (binders_l sb) (defs_l sb) (exec_block_o sb) S0 c out1 c1 b1 ->
-    (b1 = true /\ out = out1 /\ c' = c1 /\ brk = true \/
-     b1 = false /\ bind_fas b fas c1 = Some c' /\ out = out1 /\ brk = false) ->
-    incl' (binders_l sb) bs -> incl' (map t_name fas) bs ->
-    (NoDup bs -> NoDup (binders_l sb) /\ NoDup (map t_name fas) /\
-                 forall x, In x (map t_name fas) -> ~ In x (binders_l sb)) ->
-    (forall t, In t fas -> in_scope (defs_l sb ++ S0) (pick b t) = true) ->
-    good bs (map t_name fas)
-      (fun eo tr => match exec_block_o sb eo tr with
-                    | RNext en' tr' => RNext (combine (map t_name fas) (map (fun t => eval w en' (pick b t)) fas) ++ en') tr'
-                    | o => o
-                    end) S0 c out c' brk.
-  Proof.
-    intros HQs Hres Hsub HFN Hnds Hfsc D Hwf HS0 Hnd Hdj.
-    destruct (Hnds Hnd) as (Hnd1 & HndF & HdF).
-    assert (Hdj1 : disj (binders_l sb) D) by (intros x Hx; apply Hdj; auto).
-    destruct (HQs D Hwf HS0 Hnd1 Hdj1) as [(W1 & X1 & B1) Hd1].
-    assert (HSx : incl' (defs_l sb ++ S0) (binders_l sb ++ D)).
-    { intros x. rewrite !in_app_iff. intros [Hx|Hx]; [left; now apply defs_l_in_binders | right; auto]. }
-    split.
-    - destruct Hres as [(-> & -> & -> & ->)|(-> & Hb & -> & ->)].
-      + split; [eapply cx_wf_mono; eauto; intros x; rewrite !in_app_iff; intros [Hx|Hx]; auto|].
-        split; [eapply ext_mono; eauto | eapply incl'_trans; eauto].
-      + split; [|split; [|eapply incl'_trans; eauto]].
-        * pose proof (bind_fas_static b fas c1 c' _ _ Hb W1 HSx Hfsc) as W2.
-          eapply cx_wf_mono; eauto. intros x. rewrite !in_app_iff. intros [Hx|[Hx|Hx]]; auto.
-        * eapply ext_trans; [exact X1 | eapply bind_fas_ext; eauto | assumption | assumption].
-    - intros S eo et tr Hi1 Hi2 HR. specialize (Hd1 S eo et tr Hi1 Hi2 HR).
-      destruct (exec_block_o sb eo tr) as [eo1 tr1|v eo1 tr1| | | | |]; cbn [dyn] in *; auto.
-      + destruct Hd1 as (Eb1 & et1 & S1 & Ex & HR1 & Lo & Up).
-        destruct Hres as [(-> & _)|(_ & Hb & -> & ->)]; [discriminate|]. split; auto.
-        exists et1, (map t_name fas ++ S1). split; [assumption|]. split; [|split].
-        * eapply (Rel_bind_fas b fas c1 c' S1 (defs_l sb ++ S0) eo1 et1 (binders_l sb ++ D)); eauto.
-          -- intros x Hx. rewrite in_app_iff. intros [Hb'|Hd']; [eapply HdF; eauto | eapply Hdj; eauto].
-          -- intros x Hx. apply Up in Hx. rewrite in_app_iff in *. destruct Hx; auto.
-          -- intros x Hx. apply Lo. rewrite in_app_iff in *. destruct Hx; auto.
-        * intros x. rewrite !in_app_iff. intros [Hx|Hx]; auto. right. apply Lo. rewrite in_app_iff. auto.
-        * intros x. rewrite !in_app_iff. intros [Hx|Hx]; auto. apply Up in Hx. rewrite in_app_iff in Hx.
-          destruct Hx; auto.
-      + destruct Hres as [(_ & -> & _)|(_ & _ & -> & _)]; exact Hd1.
-  Qed.
   Lemma is_lit_eval e k : is_lit e k = true -> forall en, eval w en e = k.
   Proof.
     unfold is_lit. destruct (lit e) as [z|] eqn:L; [|discriminate]. intros E en. apply Z.eqb_eq in E. subst.
@@ -710,76 +141,6 @@ Section Ccp.
         * apply NoDup_app_r' in Hnd. eapply (NoDup_app_disj' _ _ x Hnd); eauto.
   Qed.
 
-  Lemma P_SIf_const n cnd s1 s2 fas c out c' brk f S0 v :
-    Qn n -> lit (opt_expr (cx_v c) cnd) = Some v ->
-    match ccp_stmts g n (if negb (v =? 0) then s1 else s2) c with
-    | None => None
-    | Some (out, c1, true, f) => Some (out, c1, true, f)
-    | Some (out, c1, false, f) =>
-        match bind_fas (negb (v =? 0)) fas c1 with Some c2 => Some (out, c2, false, f) | None => None end
-    end = Some (out, c', brk, f) ->
-    fst f = false -> scoped S0 (SIf cnd s1 s2 fas) = true ->
-    good (binders (SIf cnd s1 s2 fas)) (map t_name fas) (exec_o (SIf cnd s1 s2 fas)) S0 c out c' brk.
-  Proof.
-    intros HQ L H Hf Hsc. destruct (SIf_scoped_parts _ _ _ _ _ Hsc) as (Hc & Hs1 & Hs2 & Hfa).
-    set (b := negb (v =? 0)) in *.
-    destruct (SIf_binders_parts cnd s1 s2 fas b) as (Hsub & HFN & Hnds).
-    destruct (ccp_stmts g n (if b then s1 else s2) c) as [[[[o1 c1] b1] f1]|] eqn:E1; [|discriminate].
-    assert (Hres : fst f1 = false /\
-                   (b1 = true /\ out = o1 /\ c' = c1 /\ brk = true \/
-                    b1 = false /\ bind_fas b fas c1 = Some c' /\ out = o1 /\ brk = false)).
-    { destruct b1.
-      - injection H as <- <- <- <-. auto 8.
-      - destruct (bind_fas b fas c1) as [c2|] eqn:B; [|discriminate]. injection H as <- <- <- <-. auto 8. }
-    destruct Hres as [Hf1 Hres].
-    assert (Hssb : scoped_l S0 (if b then s1 else s2) = true) by (destruct b; assumption).
-    pose proof (HQ _ c o1 c1 b1 f1 S0 E1 Hf1 Hssb) as HQs.
-    eapply good_ext; [eapply (const_if_core b); eauto|].
-    intros S eo et tr Hi HR. rewrite exec_SIf.
-    destruct (lit_eval _ _ L) as (Hv & _ & _).
-    rewrite (Rel_expr w c S eo et cnd HR (in_scope_In _ _ _ Hc Hi)), Hv.
-    destruct (cond v) as [b0|] eqn:Ec; [|right; exact I].
-    rewrite (cond_lit v b0 Ec). fold b. left. destruct b; reflexivity.
-  Qed.
-
-  (* if c { } else { } with final assignment x = (1, 0) or (0, 1) *)
-  Lemma P_SIf_10 cnd t c c' S0 :
-    is_lit (t_e1 t) 1 && is_lit (t_e2 t) 0 = true ->
-    bind (t_name t) (opt_expr (cx_v c) cnd) c = Some c' -> in_scope S0 cnd = true ->
-    good [t_name t] [t_name t] (exec_o (SIf cnd [] [] [t])) S0 c [] c' false.
-  Proof.
-    intros Hl Hb Hc. apply andb_prop in Hl. destruct Hl as [L1 L0].
-    eapply bound_good; eauto.
-    - intros D Hwf Hi y Ey. eapply opt_expr_range; eauto.
-    - intros D S eo et tr Hwf Hi1 Hi2 HR. rewrite exec_SIf.
-      pose proof (Rel_expr w c S eo et cnd HR (in_scope_In _ _ _ Hc Hi1)) as Ec.
-      destruct (cond (eval w eo cnd)) as [[|]|] eqn:Eb; [| |exact I].
-      + cbn. eexists. split; [reflexivity|]. split; [reflexivity|]. split.
-        * rewrite eval_wrap, (is_lit_eval _ _ L1), <- Ec. symmetry. now apply cond_true.
-        * intros y Ey. eapply (Rel_expr_scope w c S eo et cnd); eauto. eapply in_scope_In; eauto.
-      + cbn. eexists. split; [reflexivity|]. split; [reflexivity|]. split.
-        * rewrite eval_wrap, (is_lit_eval _ _ L0), <- Ec. symmetry. now apply cond_false.
-        * intros y Ey. eapply (Rel_expr_scope w c S eo et cnd); eauto. eapply in_scope_In; eauto.
-  Qed.
-
-  Lemma P_SIf_01 cnd t c S0 :
-    is_lit (t_e1 t) 0 && is_lit (t_e2 t) 1 = true -> in_scope S0 cnd = true ->
-    good [t_name t] [t_name t] (exec_o (SIf cnd [] [] [t])) S0 c
-         [SBin (t_name t) XOR (opt_expr (cx_v c) cnd) (EInt 1)] c false.
-  Proof.
-    intros Hl Hc. apply andb_prop in Hl. destruct Hl as [L0 L1].
-    eapply kept_good; [reflexivity | left; reflexivity |].
-    intros D S eo et tr Hwf Hi1 Hi2 HR. rewrite exec_SIf.
-    pose proof (Rel_expr w c S eo et cnd HR (in_scope_In _ _ _ Hc Hi1)) as Ec.
-    destruct (cond (eval w eo cnd)) as [[|]|] eqn:Eb; [| |exact I].
-    - cbn. eexists. split; [reflexivity|]. split.
-      + rewrite <- Ec, (cond_true _ Eb), (is_lit_eval _ _ L0). reflexivity.
-      + intros op y k E. exfalso. symmetry in E. eapply bind_b_neq; eauto.
-    - cbn. eexists. split; [reflexivity|]. split.
-      + rewrite <- Ec, (cond_false _ Eb), (is_lit_eval _ _ L1). reflexivity.
-      + intros op y k E. exfalso. symmetry in E. eapply bind_b_neq; eauto.
-  Qed.
-  (* ---------------------------------------------------------------- IfElse, general case *)
   Lemma expr_eq_var y b : expr_eq (EVar y) b = true -> b = EVar y.
   Proof.
     unfold expr_eq. destruct b; cbn; try discriminate. destruct (N.compare_spec y x); try discriminate. now subst.
@@ -864,178 +225,6 @@ Section Ccp.
   Proof.
     intros H. destruct e; try reflexivity. apply eval_var_lookup. apply lookup_bind_notin. auto.
   Qed.
-  Lemma Rel_merge (gq gq' hq fa fb : triple -> expr) fas fas' c c' cb S Sb Sx eo et eob etb D :
-    Rel w c S eo et -> Rel w cb Sb eob etb ->
-    (forall x, In x S -> lookup x eob = lookup x eo) -> (forall x, In x S -> lookup x etb = lookup x et) ->
-    merge_fas fas (map fa fas) (map fb fas) c = Some (fas', c') ->
-    NoDup (map t_name fas) -> (forall x, In x (map t_name fas) -> ~ In x D) -> incl' S D -> cx_wf c D ->
-    incl' Sx Sb -> (forall t, In t fas -> in_scope Sx (gq t) = true) ->
-    (forall t, In t fas -> opt_expr (cx_v cb) (gq t) = hq t) ->
-    (forall t, In t fas -> expr_eq (fa t) (fb t) = true -> eval w etb (fa t) = eval w etb (hq t)) ->
-    (forall t, In t fas -> gq' (t_name t, fa t, fb t) = hq t) ->
-    (forall t y, In t fas -> expr_eq (fa t) (fb t) = true -> fa t = EVar y -> In y S) ->
-    Rel w c' (map t_name fas ++ S)
-        (combine (map t_name fas) (map (fun t => eval w eob (gq t)) fas) ++ eob)
-        (combine (map t_name fas') (map (fun t => eval w etb (gq' t)) fas') ++ etb).
-  Proof.
-    intros HR HRb Fo Ft Hm Hnd Hfr HSD Hwf HSx Hsc Hh Hmg Hg' HyS.
-    destruct (merge_fas_spec fa fb fas c fas' c' Hm) as (Eb & X & I3 & I4 & I5 & I6 & _).
-    specialize (I5 Hnd). specialize (I6 Hnd).
-    assert (Hsub : forall x, In x (map t_name fas') -> In x (map t_name fas)).
-    { intros x Hx. apply in_map_iff in Hx. destruct Hx as [t' [<- Ht']].
-      destruct (I3 t' Ht') as (t0 & Ht0 & -> & _). cbn. now apply in_map. }
-    assert (HdS : disj S (map t_name fas)) by (intros x Hx Hf; apply (Hfr x Hf); auto).
-    assert (HnS : forall y, In y S -> ~ In y (map t_name fas')) by (intros y Hy Hf; eapply HdS; eauto).
-    pose proof (Rel_ext w c c' S _ eob etb (Rel_frame w c S eo et eob etb HR Fo Ft) X HdS) as HR2.
-    assert (Hvar : forall t, In t fas -> forall y, gq t = EVar y -> In y Sb).
-    { intros t Ht y Ey. apply HSx. apply in_scope_var. rewrite <- Ey. auto. }
-    destruct HR2 as (RV2 & RI2 & RB2).
-    assert (Hopt : forall t, In t fas ->
-              opt_expr (cx_v c') (EVar (t_name t)) = if expr_eq (fa t) (fb t) then fa t else EVar (t_name t)).
-    { intros t Ht. cbn. specialize (I5 t Ht). destruct (expr_eq (fa t) (fb t)); rewrite I5; [reflexivity|].
-      rewrite (cx_wf_notin_v c D (t_name t) Hwf); [reflexivity|]. apply Hfr. now apply in_map. }
-    split; [|split].
-    - intros x Hx. destruct (in_dec N.eq_dec x (map t_name fas)) as [Hf|Hn].
-      + apply in_map_iff in Hf. destruct Hf as [t [<- Ht]]. rewrite (Hopt t Ht).
-        unfold eval at 1. rewrite (lookup_bind w gq), (find_name_unique fas t Hnd Ht), eval_wrap.
-        rewrite (Rel_expr w cb Sb eob etb (gq t) HRb (Hvar t Ht)), (Hh t Ht).
-        destruct (expr_eq (fa t) (fb t)) eqn:Eq.
-        * rewrite (eval_bind_notin gq'); [symmetry; auto|]. intros y Ey. apply HnS. eauto.
-        * unfold eval at 2. rewrite (lookup_bind w gq').
-          pose proof (find_name_unique fas' (t_name t, fa t, fb t) I6 (I4 t Ht Eq)) as Hfind.
-          change (t_name (t_name t, fa t, fb t)) with (t_name t) in Hfind.
-          rewrite Hfind, eval_wrap. now rewrite (Hg' t Ht).
-      + rewrite in_app_iff in Hx. destruct Hx as [Hx|Hx]; [contradiction|].
-        rewrite (eval_bind_notin gq) by (intros y [= <-]; exact Hn). rewrite (RV2 x Hx).
-        symmetry. apply (eval_bind_notin gq'). intros y Ey. apply HnS. eauto.
-    - intros x y Hx. destruct (in_dec N.eq_dec x (map t_name fas)) as [Hf|Hn].
-      + apply in_map_iff in Hf. destruct Hf as [t [<- Ht]]. rewrite (Hopt t Ht).
-        destruct (expr_eq (fa t) (fb t)) eqn:Eq.
-        * intros E. apply in_or_app. right. eauto.
-        * intros [= <-]. apply in_or_app. left. now apply in_map.
-      + rewrite in_app_iff in Hx. destruct Hx as [Hx|Hx]; [contradiction|]. intros E. apply in_or_app. right. eauto.
-    - intros z op y k Hz. rewrite Eb. intros E. rewrite in_app_iff in Hz. destruct Hz as [Hz|Hz].
-      + exfalso. rewrite (cx_wf_notin_b c D z Hwf (Hfr z Hz)) in E. discriminate.
-      + rewrite <- Eb in E. destruct (RB2 z op y k Hz E) as (Hy & Ho & v & Hv & Hzv).
-        split; [apply in_or_app; right; assumption|].
-        rewrite !(eval_bind_notin gq') by (intros u [= <-]; auto). eauto.
-  Qed.
-  Lemma P_SIf_generic n cnd s1 s2 fas c o1 c1 b1 f1 o2 c2 b2 f2 fas' c' S0 :
-    Qn n ->
-    ccp_stmts g n s1 c = Some (o1, c1, b1, f1) -> ccp_stmts g n s2 c = Some (o2, c2, b2, f2) ->
-    merge_fas fas (map (fun t => opt_expr (cx_v c1) (t_e1 t)) fas) (map (fun t => opt_expr (cx_v c2) (t_e2 t)) fas) c
-      = Some (fas', c') ->
-    fst f1 = false -> fst f2 = false -> scoped S0 (SIf cnd s1 s2 fas) = true ->
-    good (binders (SIf cnd s1 s2 fas)) (map t_name fas) (exec_o (SIf cnd s1 s2 fas)) S0 c
-         (if is_nil o1 && is_nil o2 && is_nil fas' then [] else [SIf (opt_expr (cx_v c) cnd) o1 o2 fas']) c' false.
-  Proof.
-    intros HQ E1 E2 Hm Hf1 Hf2 Hsc. destruct (SIf_scoped_parts _ _ _ _ _ Hsc) as (Hc & Hs1 & Hs2 & Hfa).
-    set (fa := fun t => opt_expr (cx_v c1) (t_e1 t)) in *. set (fb := fun t => opt_expr (cx_v c2) (t_e2 t)) in *.
-    set (cnd' := opt_expr (cx_v c) cnd).
-    intros D Hwf HS0 Hnd Hdj. rewrite binders_SIf in *.
-    assert (Hnd1 : NoDup (binders_l s1)) by (eapply NoDup_app_l'; eauto).
-    assert (Hnd2 : NoDup (binders_l s2)) by (eapply NoDup_app_l', NoDup_app_r'; eauto).
-    assert (HndF : NoDup (map t_name fas)) by (eapply NoDup_app_r', NoDup_app_r'; eauto).
-    assert (D12 : forall x, In x (binders_l s1) -> In x (binders_l s2) -> False).
-    { intros x H1 H2. eapply (NoDup_app_disj' _ _ x Hnd); eauto. rewrite in_app_iff. auto. }
-    assert (Dj1 : disj (binders_l s1) D) by (intros x Hx; apply Hdj; rewrite !in_app_iff; auto).
-    assert (Dj2 : disj (binders_l s2) D) by (intros x Hx; apply Hdj; rewrite !in_app_iff; auto).
-    assert (DjF : forall x, In x (map t_name fas) -> ~ In x D) by (intros x Hx Hd; eapply Hdj; eauto; rewrite !in_app_iff; auto).
-    destruct (HQ s1 c o1 c1 b1 f1 S0 E1 Hf1 Hs1 D Hwf HS0 Hnd1 Dj1) as [(W1 & X1 & Bo1) Hd1].
-    destruct (HQ s2 c o2 c2 b2 f2 S0 E2 Hf2 Hs2 D Hwf HS0 Hnd2 Dj2) as [(W2 & X2 & Bo2) Hd2].
-    destruct (merge_fas_spec fa fb fas c fas' c' Hm) as (Eb & X & I3 & I4 & I5 & I6 & I7).
-    assert (HSx1 : incl' (defs_l s1 ++ S0) (binders_l s1 ++ D)).
-    { intros x. rewrite !in_app_iff. intros [Hx|Hx]; [left; now apply defs_l_in_binders | right; auto]. }
-    assert (HSx2 : incl' (defs_l s2 ++ S0) (binders_l s2 ++ D)).
-    { intros x. rewrite !in_app_iff. intros [Hx|Hx]; [left; now apply defs_l_in_binders | right; auto]. }
-    assert (R1 : forall t y, In t fas -> fa t = EVar y -> In y (binders_l s1 ++ D)).
-    { intros t y Ht E. eapply (opt_expr_range c1 _ (defs_l s1 ++ S0) (t_e1 t)); eauto. exact (Hfa true t Ht). }
-    assert (R2 : forall t y, In t fas -> fb t = EVar y -> In y (binders_l s2 ++ D)).
-    { intros t y Ht E. eapply (opt_expr_range c2 _ (defs_l s2 ++ S0) (t_e2 t)); eauto. exact (Hfa false t Ht). }
-    assert (Hsub' : forall x, In x (map t_name fas') -> In x (map t_name fas)).
-    { intros x Hx. apply in_map_iff in Hx. destruct Hx as [t' [<- Ht']].
-      destruct (I3 t' Ht') as (t0 & Ht0 & -> & _). cbn. now apply in_map. }
-    split.
-    - split; [|split].
-      + eapply cx_wf_mono; [apply (I7 D Hwf)|].
-        * intros t y Ht Eq Ey. assert (Ev : fb t = EVar y) by (apply expr_eq_var; rewrite <- Ey; exact Eq).
-          pose proof (R1 t y Ht Ey) as A. pose proof (R2 t y Ht Ev) as B. rewrite in_app_iff in A, B.
-          destruct A as [A|A]; auto. destruct B as [B|B]; [exfalso; eauto | auto].
-        * intros x. rewrite !in_app_iff. tauto.
-      + eapply ext_mono; eauto. intros x Hx. rewrite !in_app_iff. auto.
-      + destruct (is_nil o1 && is_nil o2 && is_nil fas'); [intros x []|].
-        cbn [binders_l]. rewrite binders_SIf, app_nil_r. intros x. rewrite !in_app_iff.
-        intros [Hx|[Hx|Hx]]; auto.
-    - intros S eo et tr Hi1 Hi2 HR. rewrite exec_SIf.
-      pose proof (Rel_expr w c S eo et cnd HR (in_scope_In _ _ _ Hc Hi1)) as Ec. fold cnd' in Ec. rewrite Ec.
-      destruct (cond (eval w et cnd')) as [b|] eqn:Eb'; [|exact I].
-      assert (HSnb1 : forall x, In x S -> ~ In x (binders_l s1)) by (intros x Hx Hb; eapply Dj1; eauto).
-      assert (HSnb2 : forall x, In x S -> ~ In x (binders_l s2)) by (intros x Hx Hb; eapply Dj2; eauto).
-      destruct b.
-      + specialize (Hd1 S eo et tr Hi1 Hi2 HR).
-        pose proof (frame_block Add w fuel s1 eo tr) as Fo.
-        destruct (exec_block_o s1 eo tr) as [eo1 tr1|v eo1 tr1| | | | |]; cbn [dyn] in *; auto.
-        * destruct Hd1 as (_ & et1 & S1 & Ex1 & HR1 & Lo1 & Up1). split; auto.
-          pose proof (frame_block Add w fuel o1 et tr) as Ft. rewrite Ex1 in Ft. cbn in Fo, Ft.
-          exists (bind_e1 w fas' et1), (map t_name fas ++ S).
-          split; [rewrite (target_if cnd' o1 o2 fas' et tr true Eb'), Ex1; reflexivity|].
-          split; [|split; [apply incl'_refl | intros x; rewrite !in_app_iff; tauto]].
-          unfold bind_e1.
-          eapply (Rel_merge t_e1 t_e1 fa fa fb fas fas' c c' c1 S S1 (defs_l s1 ++ S0) eo et eo1 et1 D); eauto.
-          -- intros x Hx. apply Ft. intros Hb. apply (HSnb1 x Hx). auto.
-          -- intros x Hx. apply Lo1. rewrite in_app_iff in *. destruct Hx; auto.
-          -- intros t Ht. exact (Hfa true t Ht).
-          -- intros t y Ht Eq Ey.
-             assert (Hy1 : In y S1).
-             { eapply (Rel_expr_scope w c1 S1 eo1 et1 (t_e1 t)); eauto. intros z Ez. apply Lo1. rewrite in_app_iff.
-               pose proof (Hfa true t Ht) as Hs. cbn in Hs. rewrite Ez in Hs. apply in_scope_var in Hs.
-               rewrite in_app_iff in Hs. destruct Hs; auto. }
-             apply Up1 in Hy1. rewrite in_app_iff in Hy1. destruct Hy1 as [Hy1|Hy1]; auto. exfalso.
-             assert (Ev : fb t = EVar y) by (apply expr_eq_var; rewrite <- Ey; exact Eq).
-             pose proof (R2 t y Ht Ev) as B. rewrite in_app_iff in B. destruct B; eauto.
-        * destruct Hd1 as [et1 Ex1]. exists et1. rewrite (target_if cnd' o1 o2 fas' et tr true Eb'), Ex1. reflexivity.
-      + specialize (Hd2 S eo et tr Hi1 Hi2 HR).
-        pose proof (frame_block Add w fuel s2 eo tr) as Fo.
-        destruct (exec_block_o s2 eo tr) as [eo1 tr1|v eo1 tr1| | | | |]; cbn [dyn] in *; auto.
-        * destruct Hd2 as (_ & et1 & S1 & Ex1 & HR1 & Lo1 & Up1). split; auto.
-          pose proof (frame_block Add w fuel o2 et tr) as Ft. rewrite Ex1 in Ft. cbn in Fo, Ft.
-          exists (bind_e2 w fas' et1), (map t_name fas ++ S).
-          split; [rewrite (target_if cnd' o1 o2 fas' et tr false Eb'), Ex1; reflexivity|].
-          split; [|split; [apply incl'_refl | intros x; rewrite !in_app_iff; tauto]].
-          unfold bind_e2.
-          eapply (Rel_merge t_e2 t_e2 fb fa fb fas fas' c c' c2 S S1 (defs_l s2 ++ S0) eo et eo1 et1 D); eauto.
-          -- intros x Hx. apply Ft. intros Hb. apply (HSnb2 x Hx). auto.
-          -- intros x Hx. apply Lo1. rewrite in_app_iff in *. destruct Hx; auto.
-          -- intros t Ht. exact (Hfa false t Ht).
-          -- intros t Ht Eq. now apply expr_eq_sound.
-          -- intros t y Ht Eq Ey.
-             assert (Ev : fb t = EVar y) by (apply expr_eq_var; rewrite <- Ey; exact Eq).
-             assert (Hy1 : In y S1).
-             { eapply (Rel_expr_scope w c2 S1 eo1 et1 (t_e2 t)); eauto. intros z Ez. apply Lo1. rewrite in_app_iff.
-               pose proof (Hfa false t Ht) as Hs. cbn in Hs. rewrite Ez in Hs. apply in_scope_var in Hs.
-               rewrite in_app_iff in Hs. destruct Hs; auto. }
-             apply Up1 in Hy1. rewrite in_app_iff in Hy1. destruct Hy1 as [Hy1|Hy1]; auto. exfalso.
-             pose proof (R1 t y Ht Ey) as B. rewrite in_app_iff in B. destruct B; eauto.
-        * destruct Hd2 as [et1 Ex1]. exists et1. rewrite (target_if cnd' o1 o2 fas' et tr false Eb'), Ex1. reflexivity.
-  Qed.
-  (* ---------------------------------------------------------------- While (the loop is kept) *)
-  Lemma Rel_add_many c S L eo et :
-    Rel w c S eo et ->
-    (forall x, In x L -> lookup x eo = lookup x et /\ assoc x (cx_v c) = None /\ assoc x (cx_b c) = None) ->
-    Rel w c (L ++ S) eo et.
-  Proof.
-    intros (RV & RI & RB) HL. split; [|split].
-    - intros x Hx. destruct (in_dec N.eq_dec x L) as [Hl|Hn].
-      + destruct (HL x Hl) as (E & Ev & _). cbn [opt_expr]. rewrite Ev. unfold eval. now rewrite E.
-      + rewrite in_app_iff in Hx. destruct Hx; [contradiction | auto].
-    - intros x y Hx. destruct (in_dec N.eq_dec x L) as [Hl|Hn].
-      + destruct (HL x Hl) as (_ & Ev & _). cbn [opt_expr]. rewrite Ev. intros [= <-]. apply in_or_app; auto.
-      + rewrite in_app_iff in Hx. destruct Hx as [Hx|Hx]; [contradiction|]. intros E. apply in_or_app. right. eauto.
-    - intros z op y k Hz E. destruct (in_dec N.eq_dec z L) as [Hl|Hn].
-      + destruct (HL z Hl) as (_ & _ & Eb). congruence.
-      + rewrite in_app_iff in Hz. destruct Hz as [Hz|Hz]; [contradiction|].
-        destruct (RB z op y k Hz E) as (Hy & R). split; [apply in_or_app; right; assumption | exact R].
-  Qed.
 
   Lemma loop_sim2 (Iv : env -> env -> Prop) b1 b2 n1 n2 :
     (forall e1 e2 tr, Iv e1 e2 ->
@@ -1069,334 +258,13 @@ Section Ccp.
 
   (* the loop variables that never change are bound to their (optimised) initial value; on the proved path
      this only happens for the repaired code *)
-  Lemma elim_spec lvs : forall c K c1 f0,
-    elim_lvs g lvs c = Some (K, c1, f0) -> fst f0 = false -> NoDup (map t_name lvs) ->
-    (forall t y, In t lvs -> t_e1 t = EVar y -> ~ In y (map t_name lvs)) ->
-    K = filter (fun t => negb (is_elim t)) lvs /\
-    cx_b c1 = cx_b c /\
-    ext_outside (map t_name lvs) c c1 /\
-    (forall t, In t lvs ->
-       if is_elim t then assoc (t_name t) (cx_v c1) = Some (opt_expr (cx_v c) (t_e1 t))
-       else assoc (t_name t) (cx_v c1) = assoc (t_name t) (cx_v c)) /\
-    (forall D Sx, cx_wf c D -> incl' Sx D -> (forall t, In t lvs -> in_scope Sx (t_e1 t) = true) ->
-                  cx_wf c1 (map t_name lvs ++ D)).
-  Proof.
-    unfold is_elim. induction lvs as [|t r IH]; intros c K c1 f0 H Hf Hnd Hfr; cbn in H.
-    - injection H as <- <- <-. split; [reflexivity|]. split; [reflexivity|]. split; [apply ext_refl|].
-      split; [intros t []|]. intros D Sx Hwf _ _. assumption.
-    - inversion Hnd as [|? ? Hni Hnd']; subst.
-      assert (Hfr' : forall t' y, In t' r -> t_e1 t' = EVar y -> ~ In y (map t_name r)).
-      { intros t' y Ht' Ey Hy. eapply (Hfr t' y); eauto; right; assumption. }
-      cbn [filter]. destruct (expr_eq (t_e1 t) (t_e2 t)) eqn:Eq; cbn [negb].
-      + destruct (bind (t_name t) _ c) as [ca|] eqn:B; [|discriminate].
-        destruct (elim_lvs g r ca) as [[[k0 c0] f1]|] eqn:E; [|discriminate]. injection H as <- <- <-.
-        apply orf_false in Hf. destruct Hf as [Hv Hf1].
-        destruct (v_optinit g) eqn:Ev; [|discriminate].
-        destruct (IH ca k0 c0 f1 E Hf1 Hnd' Hfr') as (I1 & I2 & I3 & I4 & I5).
-        destruct (bind_inv _ _ _ _ B) as (Hn & Evc & Ebc).
-        assert (Hoptr : forall t', In t' r -> opt_expr (cx_v ca) (t_e1 t') = opt_expr (cx_v c) (t_e1 t')).
-        { intros t' Ht'. rewrite Evc. destruct (t_e1 t') eqn:Ep; try reflexivity. cbn.
-          destruct (N.eqb_spec x (t_name t)) as [->|]; [|reflexivity].
-          exfalso. eapply (Hfr t' (t_name t)); eauto; [right; assumption | left; reflexivity]. }
-        split; [assumption|]. split; [congruence|]. split; [|split].
-        * eapply ext_trans; [eapply bind_ext; eauto | exact I3 | |].
-          -- intros x [<-|[]]. left; reflexivity.
-          -- intros x Hx. right. exact Hx.
-        * intros t' [<-|Ht'].
-          -- rewrite Eq. destruct (I3 (t_name t) Hni) as [-> _]. rewrite Evc. cbn. now rewrite N.eqb_refl.
-          -- specialize (I4 t' Ht'). destruct (expr_eq (t_e1 t') (t_e2 t')).
-             ++ rewrite I4. f_equal. now apply Hoptr.
-             ++ rewrite I4, Evc. cbn. destruct (N.eqb_spec (t_name t') (t_name t)) as [E'|]; [|reflexivity].
-                exfalso. apply Hni. rewrite <- E'. now apply in_map.
-        * intros D Sx Hwf Hi Hsc.
-          assert (Hwa : cx_wf ca (t_name t :: D)).
-          { eapply bind_wf; eauto. intros y Ey. eapply (opt_expr_range c D Sx (t_e1 t)); eauto. apply Hsc. left; reflexivity. }
-          assert (Hi' : incl' Sx (t_name t :: D)) by (intros x Hx; right; auto).
-          pose proof (I5 (t_name t :: D) Sx Hwa Hi' (fun t' Ht' => Hsc t' (or_intror Ht'))) as W.
-          eapply cx_wf_mono; eauto. intros x. cbn. rewrite !in_app_iff. cbn. tauto.
-      + destruct (elim_lvs g r c) as [[[k0 c0] f1]|] eqn:E; [|discriminate]. injection H as <- <- <-.
-        destruct (IH c k0 c0 f1 E Hf Hnd' Hfr') as (I1 & I2 & I3 & I4 & I5).
-        split; [now f_equal|]. split; [assumption|]. split; [|split].
-        * eapply ext_mono; eauto. intros x Hx. right. exact Hx.
-        * intros t' [<-|Ht'].
-          -- rewrite Eq. now destruct (I3 (t_name t) Hni) as [-> _].
-          -- exact (I4 t' Ht').
-        * intros D Sx Hwf Hi Hsc.
-          pose proof (I5 D Sx Hwf Hi (fun t' Ht' => Hsc t' (or_intror Ht'))) as W.
-          eapply cx_wf_mono; eauto. intros x. cbn. rewrite !in_app_iff. tauto.
-  Qed.
 
-  Lemma try_loop_notfirst stmts d : forall lvs body bc c out c' b f,
-    try_loop g stmts d false lvs body bc c = Some (out, c', b, f) -> fst f = true.
-  Proof.
-    induction d as [|d IH]; intros lvs body bc c out c' b f H; cbn [try_loop] in H;
-      destruct (bind_inits lvs c) as [c1|]; try discriminate;
-      destruct (stmts body c1) as [[[[o c2] bb] ff]|]; try discriminate;
-      destruct (split_last o) as [[rest last]|].
-    1, 3: destruct (negb (is_break last) || v_guard g && negb (no_break_l rest));
-          [injection H as <- <- <- <-; reflexivity|];
-          destruct last; try discriminate; destruct bc as [bn|];
-          [destruct (bind bn _ c) as [cb|]; [|discriminate]|]; injection H as <- <- <- <-; reflexivity.
-    - injection H as <- <- <- <-. reflexivity.
-    - eapply IH; eauto.
-  Qed.
-
-  Lemma try_loop_proved stmts d lvs body bc c out c' b f :
-    try_loop g stmts d true lvs body bc c = Some (out, c', b, f) -> fst f = false ->
-    out = [SWhile lvs body bc] /\ c' = c /\ b = false.
-  Proof.
-    intros H Hf. destruct d as [|d]; cbn [try_loop] in H;
-      destruct (bind_inits lvs c) as [c1|]; try discriminate;
-      destruct (stmts body c1) as [[[[o c2] bb] ff]|]; try discriminate;
-      destruct (split_last o) as [[rest last]|].
-    1, 3: destruct (negb (is_break last) || v_guard g && negb (no_break_l rest));
-          [injection H as <- <- <- <-; auto|];
-          destruct last; try discriminate; destruct bc as [bn|];
-          [destruct (bind bn _ c) as [cb|]; [|discriminate]|]; injection H as <- <- <- <-; discriminate.
-    - injection H as <- <- <- <-. discriminate.
-    - apply try_loop_notfirst in H. congruence.
-  Qed.
   Lemma eval_same_on S e en en' :
     (forall y, e = EVar y -> In y S) -> (forall y, In y S -> lookup y en' = lookup y en) -> eval w en' e = eval w en e.
   Proof. intros Hv Hf. destruct e; try reflexivity. apply eval_var_lookup. apply Hf. auto. Qed.
 
-  Lemma P_SWhile n lvs ss bc c out c' brk f S0 :
-    Qn n ->
-    ccp_stmt g (S n) (SWhile lvs ss bc) c = Some (out, c', brk, f) -> fst f = false ->
-    scoped S0 (SWhile lvs ss bc) = true ->
-    good (binders (SWhile lvs ss bc)) (opt_names bc) (exec_o (SWhile lvs ss bc)) S0 c out c' brk.
-  Proof.
-    intros HQ H Hf Hsc. cbn [ccp_stmt] in H. fold (ccp_stmts g n) in H.
-    destruct (elim_lvs g lvs c) as [[[K c1] f0]|] eqn:Ee; [|discriminate].
-    destruct (ccp_stmts g n ss c1) as [[[[body c_in] bb] f1]|] eqn:Eb; [|discriminate].
-    set (F := fun t : triple => (t_name t, opt_expr (cx_v c1) (t_e1 t), opt_expr (cx_v c_in) (t_e2 t))) in *.
-    set (lvs' := map F K) in *.
-    destruct (match split_last body with
-              | Some (rest, SBreak e) => if v_guard g && negb (no_break_l rest) then None else Some (rest, e)
-              | _ => None end) as [[rest e]|] eqn:Eonce.
-    { (* single-iteration rewrite: flagged *)
-      exfalso. destruct (bind_inits lvs' c1) as [c2|]; [|discriminate].
-      destruct (ccp_stmts g n rest c2) as [[[[o c3] b3] f2]|]; [|discriminate].
-      destruct bc as [bn|]; [destruct (bind bn _ c3) as [c4|]; [|discriminate]|];
-        injection H as <- <- <- <-; cbn in Hf; rewrite orb_true_r in Hf; discriminate. }
-    destruct (try_loop g (ccp_stmts g n) 5 true lvs' body bc c1) as [[[[o c2] b2] f2]|] eqn:Et; [|discriminate].
-    injection H as <- <- <- <-. apply orf_false in Hf. destruct Hf as [Hf01 Hf2].
-    apply orf_false in Hf01. destruct Hf01 as [Hf0 Hf1].
-    destruct (try_loop_proved _ _ _ _ _ _ _ _ _ _ Et Hf2) as (-> & -> & ->).
-    rewrite scoped_SWhile in Hsc. apply andb_prop in Hsc. destruct Hsc as [Hsc Hl2].
-    apply andb_prop in Hsc. destruct Hsc as [Hl1 Hss]. rewrite forallb_forall in Hl1, Hl2.
-    rewrite binders_SWhile.
-    set (LN := map t_name lvs) in *.
-    specialize (HQ ss c1 body c_in bb f1 (LN ++ S0) Eb Hf1 Hss).
-    intros D Hwf HS0 Hnd Hdj.
-    assert (HndL : NoDup LN) by (eapply NoDup_app_l'; eauto).
-    assert (HndB : NoDup (binders_l ss)) by (eapply NoDup_app_l', NoDup_app_r'; eauto).
-    assert (DLB : forall x, In x LN -> In x (binders_l ss) -> False).
-    { intros x H1 H2. eapply (NoDup_app_disj' _ _ x Hnd); eauto. rewrite in_app_iff. auto. }
-    assert (DjL : forall x, In x LN -> ~ In x D) by (intros x Hx Hd; eapply Hdj; eauto; rewrite !in_app_iff; auto).
-    assert (DjB : forall x, In x (binders_l ss) -> ~ In x D) by (intros x Hx Hd; eapply Hdj; eauto; rewrite !in_app_iff; auto).
-    assert (Djc : forall x, In x (opt_names bc) -> ~ In x D) by (intros x Hx Hd; eapply Hdj; eauto; rewrite !in_app_iff; auto).
-    assert (DLc : forall x, In x LN -> In x (opt_names bc) -> False).
-    { intros x H1 H2. eapply (NoDup_app_disj' _ _ x Hnd); eauto. rewrite in_app_iff. auto. }
-    assert (Hinitfresh : forall t y, In t lvs -> t_e1 t = EVar y -> ~ In y LN).
-    { intros t y Ht Ey Hy. apply (DjL y Hy). apply HS0. apply in_scope_var. rewrite <- Ey. auto. }
-    destruct (elim_spec lvs c K c1 f0 Ee Hf0 HndL Hinitfresh) as (EK & Ebc & X1 & A1 & W1).
-    assert (HwfL : cx_wf c1 (LN ++ D)) by (apply (W1 D S0 Hwf HS0); auto).
-    assert (HS0L : incl' (LN ++ S0) (LN ++ D)) by (intros x; rewrite !in_app_iff; intros [Hx|Hx]; auto).
-    assert (HdjB : disj (binders_l ss) (LN ++ D)).
-    { intros x Hx. rewrite in_app_iff. intros [Hl|Hd]; [eapply DLB | eapply DjB]; eauto. }
-    destruct (HQ (LN ++ D) HwfL HS0L HndB HdjB) as [(Wb & Xb & Bb) Hdb].
-    assert (HKin : forall t, In t K -> In t lvs /\ is_elim t = false).
-    { intros t Ht. rewrite EK in Ht. apply filter_In in Ht. destruct Ht as [Ht He]. split; auto. now apply negb_true_iff in He. }
-    assert (HinK : forall t, In t lvs -> is_elim t = false -> In t K).
-    { intros t Ht He. rewrite EK. apply filter_In. split; auto. now rewrite He. }
-    assert (HndK : NoDup (map t_name K)) by (rewrite EK; now apply NoDup_filter_names).
-    assert (ELK : map t_name lvs' = map t_name K) by (unfold lvs'; rewrite map_map; reflexivity).
-    assert (HLK : forall x, In x (map t_name K) -> In x LN).
-    { intros x Hx. apply in_map_iff in Hx. destruct Hx as [t [<- Ht]]. apply in_map. apply HKin. exact Ht. }
-    assert (Hopt1 : forall t, In t lvs -> opt_expr (cx_v c1) (t_e1 t) = opt_expr (cx_v c) (t_e1 t)).
-    { intros t Ht. destruct (t_e1 t) eqn:Ep; try reflexivity. cbn. destruct (X1 x) as [-> _]; [|reflexivity].
-      eapply Hinitfresh; eauto. }
-    split.
-    - split; [|split].
-      + eapply cx_wf_mono; eauto. intros x. rewrite !in_app_iff. tauto.
-      + eapply ext_mono; eauto. apply incl'_app_l.
-      + cbn [binders_l]. rewrite binders_SWhile, app_nil_r, ELK. intros x. rewrite !in_app_iff.
-        intros [Hx|[Hx|Hx]]; auto.
-    - intros S eo et tr Hi1 Hi2 HR.
-      assert (HSL : forall x, In x S -> ~ In x LN) by (intros x Hx Hl; apply (DjL x Hl); auto).
-      assert (HSB : forall x, In x S -> ~ In x (binders_l ss)) by (intros x Hx Hb; apply (DjB x Hb); auto).
-      assert (HSLK : forall x, In x S -> ~ In x (map t_name lvs')) by (intros x Hx Hl; rewrite ELK in Hl; apply (HSL x Hx); auto).
-      assert (Hinit_in : forall t, In t lvs -> forall y, t_e1 t = EVar y -> In y S).
-      { intros t Ht. eapply in_scope_In; eauto. }
-      (* the loop heads: outer scope related and unchanged since the entry, kept loop variables equal,
-         unchanging loop variables still equal to their initial value *)
-      set (Iv := fun eh th : env =>
-        Rel w c S eh th /\ (forall x, In x S -> lookup x eh = lookup x eo /\ lookup x th = lookup x et) /\
-        forall t, In t lvs -> if is_elim t then eval w eh (EVar (t_name t)) = eval w eo (t_e1 t)
-                              else lookup (t_name t) eh = lookup (t_name t) th).
-      assert (HF : forall t, In t K -> find (fun t' : triple => N.eqb (t_name t) (t_name t')) lvs' = Some (F t)).
-      { intros t Ht. apply find_mapped; auto. }
-      assert (HRel1 : forall eh th, Iv eh th -> Rel w c1 (LN ++ S) eh th).
-      { intros eh th (HRh & Hfr & Hlv). destruct HRh as (RV & RI & RB).
-        assert (Ho : forall x, In x S -> opt_expr (cx_v c1) (EVar x) = opt_expr (cx_v c) (EVar x)).
-        { intros x Hx. cbn. destruct (X1 x (HSL x Hx)) as [-> _]. reflexivity. }
-        assert (Hoe : forall t, In t lvs -> is_elim t = true -> opt_expr (cx_v c1) (EVar (t_name t)) = opt_expr (cx_v c) (t_e1 t)).
-        { intros t Ht He. cbn. pose proof (A1 t Ht) as A. rewrite He in A. now rewrite A. }
-        assert (Hok : forall t, In t lvs -> is_elim t = false -> opt_expr (cx_v c1) (EVar (t_name t)) = EVar (t_name t)).
-        { intros t Ht He. cbn. pose proof (A1 t Ht) as A. rewrite He in A. rewrite A.
-          rewrite (cx_wf_notin_v c D (t_name t) Hwf); [reflexivity|]. apply DjL. now apply in_map. }
-        split; [|split].
-        - intros x Hx. destruct (in_dec N.eq_dec x LN) as [Hl|Hn].
-          + apply in_map_iff in Hl. destruct Hl as [t [<- Ht]]. specialize (Hlv t Ht).
-            destruct (is_elim t) eqn:He.
-            * rewrite (Hoe t Ht He), Hlv.
-              rewrite (Rel_expr w c S eo et (t_e1 t) HR (Hinit_in t Ht)).
-              symmetry. apply (eval_same_on S).
-              -- intros y Ey. eapply (Rel_expr_scope w c S eo et (t_e1 t)); eauto.
-              -- intros y Hy. apply Hfr. exact Hy.
-            * rewrite (Hok t Ht He). unfold eval. now rewrite Hlv.
-          + rewrite in_app_iff in Hx. destruct Hx as [Hx|Hx]; [contradiction|]. rewrite (Ho x Hx). auto.
-        - intros x y Hx. destruct (in_dec N.eq_dec x LN) as [Hl|Hn].
-          + apply in_map_iff in Hl. destruct Hl as [t [<- Ht]]. destruct (is_elim t) eqn:He.
-            * rewrite (Hoe t Ht He). intros E. apply in_or_app. right.
-              eapply (Rel_expr_scope w c S eo et (t_e1 t)); eauto.
-            * rewrite (Hok t Ht He). intros [= <-]. apply in_or_app. left. now apply in_map.
-          + rewrite in_app_iff in Hx. destruct Hx as [Hx|Hx]; [contradiction|]. rewrite (Ho x Hx). intros E.
-            apply in_or_app. right. eauto.
-        - intros z op y k Hz. rewrite Ebc. intros E. rewrite in_app_iff in Hz. destruct Hz as [Hz|Hz].
-          + exfalso. rewrite (cx_wf_notin_b c D z Hwf (DjL z Hz)) in E. discriminate.
-          + destruct (RB z op y k Hz E) as (Hy & R). split; [apply in_or_app; right; assumption | exact R]. }
-      assert (Hinit : Iv (bind_e1 w lvs eo) (bind_e1 w lvs' et)).
-      { split; [|split].
-        - eapply Rel_frame; eauto; intros x Hx; unfold bind_e1.
-          + apply (lookup_bind_notin w t_e1). auto.
-          + apply (lookup_bind_notin w t_e1). auto.
-        - intros x Hx. unfold bind_e1. split; apply (lookup_bind_notin w t_e1); auto.
-        - intros t Ht. destruct (is_elim t) eqn:He.
-          + unfold eval at 1. unfold bind_e1. rewrite (lookup_bind w t_e1), (find_name_unique lvs t HndL Ht). apply eval_wrap.
-          + unfold bind_e1. rewrite !(lookup_bind w t_e1), (find_name_unique lvs t HndL Ht), (HF t (HinK t Ht He)).
-            unfold F. cbn [t_e1 fst snd]. rewrite (Hopt1 t Ht). apply (Rel_expr w c S eo et (t_e1 t) HR). exact (Hinit_in t Ht). }
-      assert (Hstep : forall eh th t0, Iv eh th ->
-         match exec_block_o ss eh t0 with
-         | RNext e1' t1 => exists e2', exec_block_t body th t0 = RNext e2' t1 /\ Iv (bind_e2 w lvs e1') (bind_e2 w lvs' e2')
-         | RBreak v _ t1 => exists e2', exec_block_t body th t0 = RBreak v e2' t1
-         | _ => True
-         end).
-      { intros eh th t0 HIv. pose proof (HRel1 eh th HIv) as HRL. destruct HIv as (HRh & Hfr & Hlv).
-        assert (HiL1 : incl' (LN ++ S0) (LN ++ S)) by (intros x; rewrite !in_app_iff; intros [Hx|Hx]; auto).
-        assert (HiL2 : incl' (LN ++ S) (LN ++ D)) by (intros x; rewrite !in_app_iff; intros [Hx|Hx]; auto).
-        specialize (Hdb (LN ++ S) eh th t0 HiL1 HiL2 HRL).
-        pose proof (frame_block Add w fuel ss eh t0) as Fo.
-        destruct (exec_block_o ss eh t0) as [eo1 tr1|v eo1 tr1| | | | |]; cbn [dyn] in *; auto.
-        destruct Hdb as (_ & et1 & S1 & Ex1 & HR1 & Lo1 & Up1). exists et1. split; [assumption|].
-        pose proof (frame_block Add w fuel body th t0) as Ft. rewrite Ex1 in Ft. cbn in Fo, Ft.
-        assert (Fo' : forall x, In x S -> lookup x (bind_e2 w lvs eo1) = lookup x eh).
-        { intros x Hx. unfold bind_e2. rewrite (lookup_bind_notin w t_e2) by auto. apply Fo. auto. }
-        assert (Ft' : forall x, In x S -> lookup x (bind_e2 w lvs' et1) = lookup x th).
-        { intros x Hx. unfold bind_e2. rewrite (lookup_bind_notin w t_e2) by auto. apply Ft. intros Hb. apply (HSB x Hx). auto. }
-        split; [|split].
-        - eapply Rel_frame; eauto.
-        - intros x Hx. destruct (Hfr x Hx) as [A B]. rewrite (Fo' x Hx), (Ft' x Hx). auto.
-        - intros t Ht. destruct (is_elim t) eqn:He.
-          + unfold eval at 1. unfold bind_e2. rewrite (lookup_bind w t_e2), (find_name_unique lvs t HndL Ht), eval_wrap.
-            unfold is_elim in He. rewrite <- (expr_eq_sound _ _ He w eo1).
-            apply (eval_same_on S (t_e1 t) eo eo1 (Hinit_in t Ht)). intros y Hy. rewrite (Fo y) by auto. apply Hfr. exact Hy.
-          + unfold bind_e2. rewrite !(lookup_bind w t_e2), (find_name_unique lvs t HndL Ht), (HF t (HinK t Ht He)).
-            unfold F. cbn [t_e2 snd]. apply (Rel_expr w c_in S1 eo1 et1 (t_e2 t) HR1).
-            intros y Ey. apply Lo1. specialize (Hl2 t Ht). rewrite Ey in Hl2. apply in_scope_var in Hl2.
-            rewrite !in_app_iff in *. destruct Hl2 as [Hy|[Hy|Hy]]; auto. }
-      pose proof (loop_sim2 Iv _ _ _ _ Hstep fuel _ _ tr Hinit) as HL.
-      pose proof (frame_stmt Add w fuel (SWhile lvs ss bc) eo tr) as FWo.
-      pose proof (frame_stmt Add w fuel (SWhile lvs' body bc) et tr) as FWt.
-      rewrite exec_SWhile. rewrite exec_SWhile in FWo, FWt.
-      destruct (loop (exec_block_o ss) (bind_e2 w lvs) fuel (bind_e1 w lvs eo) tr) as [? ?|v eo1 tr1| | | | |] eqn:EL;
-        cbn [dyn]; auto.
-      destruct HL as [et1 HLt]. rewrite HLt in FWt. split; auto.
-      exists (bind_opt bc v et1), (opt_names bc ++ S).
-      split; [rewrite exec_block_cons, exec_SWhile, HLt; reflexivity|].
-      split; [|split; [apply incl'_refl | intros x; rewrite !in_app_iff; tauto]].
-      rewrite binders_SWhile in FWo, FWt. rewrite ELK in FWt. unfold frame_res in FWo, FWt.
-      apply Rel_add_many.
-      + apply (Rel_ext w c c1 S LN); [|exact X1 | intros x Hx Hl; eapply HSL; eauto].
-        apply (Rel_frame w c S eo et _ _ HR); intros x Hx.
-        * apply FWo. rewrite !in_app_iff. intros [Hb|[Hb|Hb]]; [eapply HSL | eapply HSB | eapply Djc]; eauto.
-        * apply FWt. rewrite !in_app_iff. intros [Hb|[Hb|Hb]]; [eapply HSL | eapply HSB | eapply Djc]; eauto.
-      + intros x Hx. destruct bc as [bn|]; [|destruct Hx]. destruct Hx as [<-|[]]. cbn [bind_opt lookup].
-        rewrite N.eqb_refl. split; [reflexivity|].
-        assert (Hbn : ~ In bn (LN ++ D)).
-        { rewrite in_app_iff. intros [Hl|Hd]; [eapply DLc; eauto; left; reflexivity | eapply Djc; eauto; left; reflexivity]. }
-        split; [apply (cx_wf_notin_v c1 _ bn HwfL Hbn) | apply (cx_wf_notin_b c1 _ bn HwfL Hbn)].
-  Qed.
+End CcpBase.
 
-  (* ---------------------------------------------------------------- all statements *)
-  Lemma P_step n : Qn n -> Pn (S n).
-  Proof.
-    intros HQ st c out c' brk f S0 H Hf Hsc. destruct st as [x op e1 e2|x e|x p e|fn args ret|cnd s1 s2 fas|cnd inv ss|e|lvs ss bc].
-    - exact (P_SBin n x op e1 e2 c out c' brk f S0 H Hsc).
-    - exact (P_SNot n x e c out c' brk f S0 H Hsc).
-    - exact (P_SPrim n x p e c out c' brk f S0 H Hsc).
-    - exact (P_SCall n fn args ret c out c' brk f S0 H Hsc).
-    - cbn [ccp_stmt] in H. fold (ccp_stmts g n) in H. cbn [defs].
-      destruct (lit (opt_expr (cx_v c) cnd)) as [v|] eqn:L.
-      + eapply P_SIf_const; eauto.
-      + assert (GEN :
-          match ccp_stmts g n s1 c with
-          | None => None
-          | Some (o1, c1, _, f1) =>
-              match ccp_stmts g n s2 c with
-              | None => None
-              | Some (o2, c2, _, f2) =>
-                  match merge_fas fas (map (fun t => opt_expr (cx_v c1) (t_e1 t)) fas)
-                                  (map (fun t => opt_expr (cx_v c2) (t_e2 t)) fas) c with
-                  | None => None
-                  | Some (fas', c'0) =>
-                      Some (if is_nil o1 && is_nil o2 && is_nil fas' then []
-                            else [SIf (opt_expr (cx_v c) cnd) o1 o2 fas'], c'0, false, orf f1 f2)
-                  end
-              end
-          end = Some (out, c', brk, f) ->
-          good (binders (SIf cnd s1 s2 fas)) (map t_name fas) (exec_o (SIf cnd s1 s2 fas)) S0 c out c' brk).
-        { intros HG. destruct (ccp_stmts g n s1 c) as [[[[o1 c1] b1] f1]|] eqn:E1; [|discriminate].
-          destruct (ccp_stmts g n s2 c) as [[[[o2 c2] b2] f2]|] eqn:E2; [|discriminate].
-          destruct (merge_fas fas _ _ c) as [[fas' c0]|] eqn:Hm; [|discriminate].
-          injection HG as <- <- <- <-. apply orf_false in Hf. destruct Hf as [Hf1 Hf2].
-          eapply P_SIf_generic; eauto. }
-        destruct s1 as [|a1 r1]; [|apply GEN; exact H].
-        destruct s2 as [|a2 r2]; [|apply GEN; exact H].
-        destruct fas as [|t [|t2 r]]; [apply GEN; exact H| |apply GEN; exact H].
-        destruct (SIf_scoped_parts _ _ _ _ _ Hsc) as (Hc & _).
-        destruct (is_lit (t_e1 t) 1 && is_lit (t_e2 t) 0) eqn:L10.
-        * destruct (bind (t_name t) _ c) as [cb|] eqn:B; [|discriminate]. injection H as <- <- <- <-.
-          exact (P_SIf_10 cnd t c cb S0 L10 B Hc).
-        * destruct (is_lit (t_e1 t) 0 && is_lit (t_e2 t) 1) eqn:L01.
-          -- injection H as <- <- <- <-. exact (P_SIf_01 cnd t c S0 L01 Hc).
-          -- apply GEN; exact H.
-    - exact (P_SSIf n cnd inv ss c out c' brk f S0 HQ H Hf Hsc).
-    - exact (P_SBreak n e c out c' brk f S0 H Hsc).
-    - exact (P_SWhile n lvs ss bc c out c' brk f S0 HQ H Hf Hsc).
-  Qed.
-
-  Theorem ccp_all n : Pn n /\ Qn n.
-  Proof.
-    induction n as [|n [IHP IHQ]].
-    - assert (P0 : Pn 0) by (intros st c out c' brk f S0 H; discriminate). split; [exact P0 | apply Q_of_P; exact P0].
-    - pose proof (P_step n IHQ) as HP. split; [exact HP | apply Q_of_P; exact HP].
-  Qed.
-End Ccp.
-
-Lemma Rel_init w S en : Rel w cx0 S en en.
-Proof.
-  split; [|split].
-  - intros x _. reflexivity.
-  - intros x y Hx [= <-]. exact Hx.
-  - intros z op y k _ E. discriminate.
-Qed.
-Lemma cx_wf_init D : cx_wf cx0 D.
-Proof. split; intros; discriminate. Qed.
-
-(* "f' reproduces every run of f that does not overflow in + and -, and does not overflow there either":
-   the invariant the optimizer relies on between its rounds; it composes *)
 Definition refines_add (w : world) (f' f : func) : Prop :=
   forall args fuel v tr, sem Add w f args fuel = Done v tr -> sem Add w f' args fuel = Done v tr.
 
@@ -1413,29 +281,3 @@ Qed.
 
 (* the pass, on the proved paths (flag false), on every well-formed function; g = ver_now is the code as it
    is, other versions the code before the repairs (the paths those repairs touched are flagged either way) *)
-Theorem ccp_gen_preserves_add g w f f' fl :
-  wf_func f = true -> ccp_gen g f = Some (f', fl) -> fst fl = false -> refines_add w f' f.
-Proof.
-  unfold wf_func, ccp_gen. intros Hwf H Hfl. apply andb_prop in Hwf. destruct Hwf as [Hwf Hret].
-  apply andb_prop in Hwf. destruct Hwf as [Hnd Hsc]. apply nodupb_NoDup in Hnd.
-  destruct (ccp_stmts g ccp_fuel (f_body f) cx0) as [[[[out c] b] f1]|] eqn:E; [|discriminate].
-  injection H as <- <-.
-  intros args fuel v tr Hsem.
-  destruct (ccp_all w fuel g ccp_fuel) as [_ HQ].
-  specialize (HQ (f_body f) cx0 out c b f1 (f_params f) E Hfl Hsc (f_params f) (cx_wf_init _) (incl'_refl _)).
-  destruct HQ as [_ Hd].
-  - eapply NoDup_app_r'; eauto.
-  - intros x Hb Hp. eapply (NoDup_app_disj' _ _ x Hnd); eauto.
-  - specialize (Hd (f_params f) (init_env f args) (init_env f args) [] (incl'_refl _) (incl'_refl _) (Rel_init _ _ _)).
-    unfold sem in *. cbn [f_body f_params f_ret].
-    change (init_env {| f_params := f_params f; f_body := out; f_ret := opt_expr (cx_v c) (f_ret f) |} args)
-      with (init_env f args).
-    destruct (exec_block Add w fuel (f_body f) (init_env f args) []) as [eo' tr'| | | | | |]; try discriminate.
-    injection Hsem as <- <-. cbn [dyn] in Hd. destruct Hd as (_ & et' & S' & Ex & HR & Lo & _).
-    rewrite Ex. f_equal. symmetry. apply (Rel_expr w c S' eo' et' (f_ret f) HR).
-    intros x Ex'. apply Lo. apply in_scope_var. rewrite <- Ex'. exact Hret.
-Qed.
-
-Corollary ccp_gen_preserves g w f f' fl :
-  wf_func f = true -> ccp_gen g f = Some (f', fl) -> fst fl = false -> refines w f' f.
-Proof. intros H1 H2 H3. apply refines_add_refines. eapply ccp_gen_preserves_add; eauto. Qed.
